@@ -211,17 +211,17 @@ Section Proofs.
   Definition uview_inv (u : csub) (l : list (string * item)) : Prop :=
     NoDup (map fst (cview u)) /\ forall id, touched u id -> vlookup id (cview u) = shown r_filter (cs_ro u) id l.
 
-  Lemma cview_snoc tid ro at_ evs e sk :
-    cview (mkCS tid ro at_ (evs ++ [e]) sk) =
-    fold_left (@apply_change M) (c_forward_gen r_filter None false false ro [e]) (cview (mkCS tid ro at_ evs sk)).
+  Lemma cview_snoc tid ro at_ evs e sk lf cn :
+    cview (mkCS tid ro at_ (evs ++ [e]) sk lf cn) =
+    fold_left (@apply_change M) (c_forward_gen r_filter None false false ro [e]) (cview (mkCS tid ro at_ evs sk lf cn)).
   Proof.
     unfold cview, cstream, fold_view, pull_collection, pull_collection_gen. simpl cs_ro. simpl cs_at. simpl cs_evs.
     rewrite c_forward_app, app_assoc, fold_left_app. reflexivity.
   Qed.
 
-  Lemma cview_fresh tid ro (c : cstate) sk :
+  Lemma cview_fresh tid ro (c : cstate) sk lf cn :
     ro_updates_only ro = false -> sorted (c_items c) ->
-    view_inv ro (cview (mkCS tid ro c [] sk)) (c_items c).
+    view_inv ro (cview (mkCS tid ro c [] sk lf cn)) (c_items c).
   Proof.
     intros UO Hs. unfold cview, cstream, fold_view, pull_collection, pull_collection_gen. simpl. rewrite UO, app_nil_r.
     apply (@seed_view_inv _ _ r_filter str_ltb ltb_irrefl ltb_trans ro _ Hs).
@@ -282,21 +282,183 @@ Section Proofs.
         apply Hother; [intros; apply vlookup_del_other; assumption|exact Hne|exact Hp].
   Qed.
 
-  Lemma uview_snoc tid ro at_ evs e sk l l' :
+  Lemma uview_snoc tid ro at_ evs e sk lf cn l l' :
     ro_include ro = None -> describes e l l' ->
-    uview_inv (mkCS tid ro at_ evs sk) l -> uview_inv (mkCS tid ro at_ (evs ++ [e]) sk) l'.
+    uview_inv (mkCS tid ro at_ evs sk lf cn) l -> uview_inv (mkCS tid ro at_ (evs ++ [e]) sk lf cn) l'.
   Proof.
     intros RI D [Hnd Hv]. unfold uview_inv. rewrite cview_snoc. simpl cs_ro in *.
-    destruct (@forward_one_uo ro e l l' _ (touched (mkCS tid ro at_ evs sk)) RI D Hnd Hv) as [A B].
+    destruct (@forward_one_uo ro e l l' _ (touched (mkCS tid ro at_ evs sk lf cn)) RI D Hnd Hv) as [A B].
     split; [exact A|]. intros id Hid. apply B. unfold touched in *. simpl in *.
     rewrite map_app in Hid. apply in_app_or in Hid. destruct Hid as [Hid|[<-|[]]]; auto.
   Qed.
 
-  Lemma uview_fresh tid ro (c : cstate) sk l : ro_updates_only ro = true -> uview_inv (mkCS tid ro c [] sk) l.
+  Lemma uview_fresh tid ro (c : cstate) sk lf cn l : ro_updates_only ro = true -> uview_inv (mkCS tid ro c [] sk lf cn) l.
   Proof.
     intros UO. unfold uview_inv, cview, cstream, fold_view, pull_collection, pull_collection_gen. simpl. rewrite UO.
     simpl. split; [constructor|]. intros id [].
   Qed.
+
+  (* ---------- lists: segments of the commit log, chains ---------- *)
+  Definition seg {A} (from upto : nat) (log : list A) : list A := firstn (upto - from) (skipn from log).
+
+  Lemma skipn_snoc {A} k (l : list A) x : (k <= List.length l)%nat -> skipn k (l ++ [x]) = skipn k l ++ [x].
+  Proof. intros H. rewrite skipn_app. replace (k - List.length l)%nat with O by lia. reflexivity. Qed.
+
+  Lemma nth_error_skipn' {A} k : forall (l : list A) i, nth_error (skipn k l) i = nth_error l (k + i).
+  Proof.
+    induction k as [|k IH]; intros l i; [reflexivity|]. destruct l as [|x r]; simpl; [destruct i; reflexivity|]. apply IH.
+  Qed.
+
+  Lemma firstn_S_nth' {A} k : forall (l : list A) x, nth_error l k = Some x -> firstn (S k) l = firstn k l ++ [x].
+  Proof.
+    induction k as [|k IH]; intros l x H; destruct l as [|y r]; try discriminate; simpl in *.
+    - inversion H. reflexivity.
+    - f_equal. apply IH. exact H.
+  Qed.
+
+  Lemma seg_snoc_log {A} from upto (l : list A) x : (upto <= List.length l)%nat -> seg from upto (l ++ [x]) = seg from upto l.
+  Proof.
+    intros H. unfold seg. destruct (le_lt_dec from (List.length l)) as [L|L].
+    - rewrite skipn_snoc by exact L. rewrite firstn_app, skipn_length.
+      replace (upto - from - (List.length l - from))%nat with O by lia. simpl. apply app_nil_r.
+    - replace (upto - from)%nat with O by lia. reflexivity.
+  Qed.
+
+  Lemma seg_step {A} from upto (l : list A) x :
+    (from <= upto)%nat -> nth_error l upto = Some x -> seg from (S upto) l = seg from upto l ++ [x].
+  Proof.
+    intros H N. unfold seg. replace (S upto - from)%nat with (S (upto - from)) by lia.
+    apply firstn_S_nth'. rewrite nth_error_skipn'. replace (from + (upto - from))%nat with upto by lia. exact N.
+  Qed.
+
+  Lemma seg_nil {A} from upto (l : list A) : (upto <= from)%nat -> seg from upto l = [].
+  Proof. intros H. unfold seg. replace (upto - from)%nat with O by lia. reflexivity. Qed.
+
+  Lemma seg_all {A} from (l : list A) : seg from (List.length l) l = skipn from l.
+  Proof. unfold seg. rewrite <- skipn_length. apply firstn_all. Qed.
+
+  (* a segment lists the commits numbered from+1 .. upto, in that order *)
+  Lemma seg_is_map_seq {A} from upto (l : list A) :
+    (upto <= List.length l)%nat ->
+    map Some (seg from upto l) = map (fun n => nth_error l (n - 1)) (seq (S from) (upto - from)).
+  Proof.
+    intros H. unfold seg. remember (upto - from)%nat as k eqn:Ek.
+    assert (Hk : (from + k <= List.length l)%nat \/ k = O) by lia. clear Ek H. revert from Hk.
+    induction k as [|k IH]; intros from Hk; [reflexivity|].
+    destruct Hk as [Hk|Hk]; [|discriminate].
+    destruct (nth_error l from) as [x|] eqn:N; [|apply nth_error_None in N; lia].
+    assert (E : skipn from l = x :: skipn (S from) l).
+    { clear - N. revert l N. induction from as [|f IHf]; intros l N; destruct l as [|y r]; try discriminate; simpl in *.
+      - inversion N. reflexivity.
+      - apply IHf. exact N. }
+    rewrite E. cbn [firstn map seq]. replace (S from - 1)%nat with from by lia. rewrite N. f_equal.
+    apply IH. left. lia.
+  Qed.
+
+  Lemma chain_snoc evs : forall (l l1 l2 : list (string * item)) (e : cevent),
+    chain l evs l1 -> describes e l1 l2 -> chain l (evs ++ [e]) l2.
+  Proof.
+    induction evs as [|a r IH]; intros l l1 l2 e C D; inversion C; subst; simpl.
+    - eapply chain_cons; [exact D|apply chain_nil].
+    - eapply chain_cons; [eassumption|]. eapply IH; eassumption.
+  Qed.
+
+  Lemma chain_split a : forall b (l l' : list (string * item)),
+    chain l (a ++ b) l' -> exists m, chain l a m /\ chain m b l'.
+  Proof.
+    induction a as [|e r IH]; simpl; intros b l l' C.
+    - exists l. split; [apply chain_nil|exact C].
+    - inversion C as [|l0 e0 l1 evs0 l2 D C']; subst. destruct (IH _ _ _ C') as (m & A & B). exists m.
+      split; [eapply chain_cons; eassumption|exact B].
+  Qed.
+
+  (* folding a whole chain of deliveries *)
+  Lemma cview_all tid ro at_ evs sk lf cn :
+    cview (mkCS tid ro at_ evs sk lf cn) =
+    fold_left (@apply_change M) (c_forward_gen r_filter None false false ro evs) (cview (mkCS tid ro at_ [] sk lf cn)).
+  Proof.
+    unfold cview, cstream, fold_view, pull_collection, pull_collection_gen. simpl cs_ro. simpl cs_at. simpl cs_evs.
+    cbn [c_forward_gen]. rewrite app_nil_r, fold_left_app. reflexivity.
+  Qed.
+
+  Lemma uview_chain evs : forall tid ro at_ pre sk lf cn l l',
+    ro_include ro = None -> chain l evs l' ->
+    uview_inv (mkCS tid ro at_ pre sk lf cn) l -> uview_inv (mkCS tid ro at_ (pre ++ evs) sk lf cn) l'.
+  Proof.
+    induction evs as [|e r IH]; intros tid ro at_ pre sk lf cn l l' RI C Hv; inversion C; subst.
+    - rewrite app_nil_r. exact Hv.
+    - replace (pre ++ e :: r) with ((pre ++ [e]) ++ r) by (rewrite <- app_assoc; reflexivity).
+      eapply IH; [exact RI|eassumption|]. eapply uview_snoc; eassumption.
+  Qed.
+
+  (* ---------- the kinds of step ---------- *)
+  Inductive step_kind (p p' : pc) (w w' : world) (eff : effect M rmask) : Prop :=
+  | k_save_v nv e :
+      p' = PSavedV nv e -> eff = ENone -> is_pv p = false -> is_pc p = false ->
+      ve_value e = nv -> v_val (w_v w') = Some nv -> c_items (w_c w') = c_items (w_c w) -> step_kind p p' w w' eff
+  | k_save_c nv e :
+      p' = PSavedC nv e -> eff = ENone -> is_pv p = false -> is_pc p = false ->
+      w_v w' = w_v w -> describes e (c_items (w_c w)) (c_items (w_c w')) -> step_kind p p' w w' eff
+  | k_pub_v nv e : p = PSavedV nv e -> eff = EPubV e -> p' = PDone (OVal (inl nv)) -> w' = w -> step_kind p p' w w' eff
+  | k_pub_c nv e : p = PSavedC nv e -> eff = EPubC e -> p' = PDone (OVal (inl nv)) -> w' = w -> step_kind p p' w w' eff
+  | k_delete seen n r e :
+      p = PDel seen n -> eff = EPubC e -> p' = PDone r ->
+      w_v w' = w_v w -> describes e (c_items (w_c w)) (c_items (w_c w')) -> step_kind p p' w w' eff
+  | k_sub_v ro r : eff = ESubV ro -> w' = w -> p = PStart -> p' = PDone r -> step_kind p p' w w' eff
+  | k_sub_c ro r : eff = ESubC ro -> w' = w -> (p = PStart \/ p = POpen) -> p' = PDone r -> step_kind p p' w w' eff
+  | k_other :
+      eff = ENone -> is_pv p = false -> is_pc p = false -> is_pv p' = false -> is_pc p' = false ->
+      w_v w' = w_v w -> c_items (w_c w') = c_items (w_c w) -> step_kind p p' w w' eff.
+
+  Lemma trans_class (c : call) p w p' w' eff :
+    call_ok c -> pc_wf c p w -> sorted (c_items (w_c w)) ->
+    trans c p w = Some (p', w', eff) -> step_kind p p' w w' eff.
+  Proof.
+    intros Hok Hwf Hs T.
+    destruct (trans_effect _ _ _ T) as (TE1 & TE2 & TE3).
+    pose proof (trans_value _ _ _ T) as TV.
+    pose proof (@trans_coll _ _ _ _ _ _ Hok Hwf Hs T) as TC.
+    assert (NP : (exists nv e, p' = PSavedV nv e) \/ (exists nv e, p' = PSavedC nv e) -> is_pv p = false /\ is_pc p = false).
+    { intros H. destruct p; simpl; auto; destruct TE2 as [_ E]; destruct H as [(nv0 & e0 & H)|(nv0 & e0 & H)]; rewrite H in E; discriminate. }
+    assert (OTH : match p' with PSavedV _ _ | PSavedC _ _ | PDone _ => False | _ => True end -> step_kind p p' w w' eff).
+    { intros H.
+      assert (E : eff = ENone) by (destruct p'; try contradiction; exact TE3). subst eff.
+      assert (A : is_pv p = false /\ is_pc p = false).
+      { destruct p; simpl; auto; destruct TE2 as [_ E]; rewrite E in H; contradiction. }
+      destruct A as [A B].
+      apply k_other; auto; try (destruct p'; try contradiction; reflexivity).
+      - destruct p'; try contradiction; exact TV.
+      - destruct p'; try contradiction; destruct p; exact TC. }
+    destruct p' as [|old' cr'|nv e|nv e|seen' n'|r|]; try (apply OTH; exact I); clear OTH.
+    - destruct NP as [A B]; [left; eauto|]. destruct TV as [V1 V2].
+      eapply k_save_v; eauto.
+    - destruct NP as [A B]; [right; eauto|]. eapply k_save_c; eauto.
+    - (* PDone *)
+      destruct eff as [|e|e|ro|ro].
+      + assert (A : is_pv p = false /\ is_pc p = false).
+        { destruct p; simpl; auto; destruct TE2 as [E _]; discriminate. }
+        destruct A as [A B]. apply k_other; auto. destruct p; exact TC.
+      + destruct TE1 as (nv & -> & ->). destruct TE2 as [_ E]. inversion E. subst. eapply k_pub_v; eauto.
+      + destruct TE1 as [(nv & -> & ->)|(seen & n & r0 & -> & E)].
+        * destruct TE2 as [_ E]. inversion E. subst. eapply k_pub_c; eauto.
+        * inversion E. subst. eapply k_delete; eauto.
+      + destruct TE1 as (-> & -> & ->). eapply k_sub_v; eauto.
+      + destruct TE1 as (-> & Hp). eapply k_sub_c; eauto.
+  Qed.
+
+  Lemma saved_v_none (p' : pc) : is_pv p' = false -> saved_v p' = None.
+  Proof. destruct p'; simpl; intros H; try reflexivity; discriminate. Qed.
+  Lemma saved_c_none (p' : pc) : is_pc p' = false -> saved_c p' = None.
+  Proof. destruct p'; simpl; intros H; try reflexivity; discriminate. Qed.
+  Lemma del_ev_none (p : pc) : del_ev p (@ENone M rmask) = None.
+  Proof. destruct p; reflexivity. Qed.
+  Lemma del_ev_subv (p : pc) ro : del_ev p (@ESubV M rmask ro) = None.
+  Proof. destruct p; reflexivity. Qed.
+  Lemma del_ev_subc (p : pc) ro : del_ev p (@ESubC M rmask ro) = None.
+  Proof. destruct p; reflexivity. Qed.
+
+  Lemma trans_not_done (c : call) r w : trans c (PDone r) w = None.
+  Proof. destruct c; reflexivity. Qed.
 
   (* ================= all programs, all schedules ================= *)
   Variable prog : list call.
@@ -305,73 +467,99 @@ Section Proofs.
   Variable c0 : cstate.
   Hypothesis c0_sorted : sorted (c_items c0).
 
-  Notation step := (step m_eqb m_empty w_validate w_merge clock_at str_ltb idfun false prog).
-  Notation run := (run m_eqb m_empty w_validate w_merge clock_at str_ltb idfun false prog).
+  Notation step := (step m_eqb m_empty w_validate w_merge clock_at str_ltb idfun false false prog).
+  Notation run := (run m_eqb m_empty w_validate w_merge clock_at str_ltb idfun false false prog).
+  Notation enabled := (enabled m_eqb m_empty w_validate w_merge clock_at str_ltb idfun false false prog).
   Notation s0 := (s0 prog v0 c0).
   Notation Inv := (Inv m_eqb m_empty w_validate w_merge clock_at str_ltb idfun prog v0 c0).
 
-  Definition is_pv (p : pc) : bool := match p with PSavedV _ _ => true | _ => false end.
-  Definition is_pc (p : pc) : bool := match p with PSavedC _ _ => true | _ => false end.
+  (* where the deliveries of a Collection subscription start in the commit log: a seeded one drops
+     the commits numbered up to the snapshot's (cs_cnt); an updates-only one drops nothing *)
+  Definition from_c (u : csub) : nat := if ro_updates_only (cs_ro u) then cs_left u else cs_cnt u.
+  Definition last_ev (log : list vevent) (dflt : option M) : option M :=
+    match rev log with e :: _ => Some (ve_value e) | [] => dflt end.
 
-  Definition vgood (u : vsub) (cur : option M) : Prop :=
-    (vs_evs u = [] /\ ro_updates_only (vs_ro u) = true) \/ vlast u = option_map (filt (vs_ro u)) cur.
-
-  Record SInv (s : state) : Prop := {
-    (* the pending lists name exactly the threads parked before their publication *)
-    si_pv : forall t, In t (st_pendv s) <-> exists p, nth_error (st_pcs s) t = Some p /\ is_pv p = true;
-    si_pc : forall t, In t (st_pendc s) <-> exists p, nth_error (st_pcs s) t = Some p /\ is_pc p = true;
-    (* while no commit has overlapped an unpublished one: *)
-    si_v : st_overlap s = false ->
-           match st_pendv s with
-           | [] => forall u, In u (st_vsubs s) -> vgood u (v_val (w_v (st_w s)))
-           | [t] => exists nv e, nth_error (st_pcs s) t = Some (PSavedV nv e) /\ ve_value e = nv /\
-                                 v_val (w_v (st_w s)) = Some nv
-           | _ => False
-           end;
-    si_c : st_overlap s = false ->
-           match st_pendc s with
-           | [] => forall u, In u (st_csubs s) -> plain_sub u ->
-                             view_inv (cs_ro u) (cview u) (c_items (w_c (st_w s)))
-           | [t] => exists nv e lprev,
-                      nth_error (st_pcs s) t = Some (PSavedC nv e) /\
-                      describes e lprev (c_items (w_c (st_w s))) /\
-                      (* a subscriber whose snapshot was taken after that save already shows it and
-                         will not be sent it; the others are one event behind *)
-                      forall u, In u (st_csubs s) -> plain_sub u ->
-                                if existsb (Nat.eqb t) (cs_skip u)
-                                then view_inv (cs_ro u) (cview u) (c_items (w_c (st_w s)))
-                                else view_inv (cs_ro u) (cview u) lprev
-           | _ => False
-           end;
-    (* a snapshot is only ever ahead of threads that have committed *)
-    si_skip : forall u a, In u (st_csubs s) -> In a (cs_skip u) ->
-              exists p, nth_error (st_pcs s) a = Some p /\ (is_pc p = true \/ is_done p = true);
-    (* updates-only subscriptions: right at every id mentioned so far; they drop nothing *)
-    si_cu : st_overlap s = false ->
-            match st_pendc s with
-            | [] => forall u, In u (st_csubs s) -> uo_sub u -> uview_inv u (c_items (w_c (st_w s)))
-            | [t] => exists nv e lprev,
-                       nth_error (st_pcs s) t = Some (PSavedC nv e) /\
-                       describes e lprev (c_items (w_c (st_w s))) /\
-                       forall u, In u (st_csubs s) -> uo_sub u -> uview_inv u lprev
-            | _ => False
-            end;
-    si_uskip : forall u, In u (st_csubs s) -> ro_updates_only (cs_ro u) = true -> cs_skip u = []
+  Record VSubInv (leftv : nat) (logv : list vevent) (cur : option M) (u : vsub) : Prop := {
+    vi_left : (vs_left u <= leftv)%nat;
+    (* delivered so far: exactly the commits numbered vs_left+1 .. leftv, in that order *)
+    vi_evs : vs_evs u = seg (vs_left u) leftv logv;
+    vi_at : vs_left u = List.length logv -> v_val (vs_at u) = cur
   }.
 
-  Lemma sinv_init : SInv s0.
+  Definition skip_ok (pcs : list pc) (a : nat) : Prop :=
+    exists p0, nth_error pcs a = Some p0 /\ (is_pc p0 = true \/ is_done p0 = true).
+
+  Record CSubInv (leftc cntc : nat) (logc : list cevent) (pendc : list nat) (tkt : nat -> nat) (pcs : list pc)
+                 (items : list (string * item)) (u : csub) : Prop := {
+    ci_left : (cs_left u <= cs_cnt u)%nat;
+    ci_leftle : (cs_left u <= leftc)%nat;
+    ci_cnt : (cs_cnt u <= cntc)%nat;
+    (* delivered so far: exactly the commits numbered from+1 .. leftc, in that order *)
+    ci_evs : cs_evs u = seg (from_c u) leftc logc;
+    (* the skip set = the pending commits numbered up to the snapshot's *)
+    ci_skipnum : ro_updates_only (cs_ro u) = false ->
+                 forall a, In a pendc -> (In a (cs_skip u) <-> (tkt a <= cs_cnt u)%nat);
+    ci_skip : forall a, In a (cs_skip u) -> skip_ok pcs a;
+    ci_uskip : ro_updates_only (cs_ro u) = true -> cs_skip u = [];
+    ci_sorted : sorted (c_items (cs_at u));
+    (* the commits after the snapshot lead from the snapshot to the contents *)
+    ci_chain : ro_updates_only (cs_ro u) = false -> chain (c_items (cs_at u)) (skipn (cs_cnt u) logc) items;
+    ci_chainu : ro_updates_only (cs_ro u) = true -> exists L, chain L (skipn (cs_left u) logc) items
+  }.
+
+  Record TInv (s : state) : Prop := {
+    (* the pending lists name exactly the threads parked before their publication *)
+    t_pv : forall t, In t (st_pendv s) <-> exists p, nth_error (st_pcs s) t = Some p /\ is_pv p = true;
+    t_pc : forall t, In t (st_pendc s) <-> exists p, nth_error (st_pcs s) t = Some p /\ is_pc p = true;
+    t_ndv : NoDup (st_pendv s);
+    t_ndc : NoDup (st_pendc s);
+    (* they hold the commit numbers after the last one that has left, in order *)
+    t_tkv : map (st_tkt s) (st_pendv s) = seq (S (st_leftv s)) (List.length (st_pendv s));
+    t_tkc : map (st_tkt s) (st_pendc s) = seq (S (st_leftc s)) (List.length (st_pendc s));
+    t_cntv : st_cntv s = (st_leftv s + List.length (st_pendv s))%nat;
+    t_cntc : st_cntc s = (st_leftc s + List.length (st_pendc s))%nat;
+    t_lenv : List.length (st_logv s) = st_cntv s;
+    t_lenc : List.length (st_logc s) = st_cntc s;
+    (* a parked event is the log's entry of its number *)
+    t_evv : forall t, In t (st_pendv s) -> exists q e, nth_error (st_pcs s) t = Some q /\ saved_v q = Some e /\
+                                                       nth_error (st_logv s) (st_tkt s t - 1) = Some e;
+    t_evc : forall t, In t (st_pendc s) -> exists q e, nth_error (st_pcs s) t = Some q /\ saved_c q = Some e /\
+                                                       nth_error (st_logc s) (st_tkt s t - 1) = Some e;
+    t_val : v_val (w_v (st_w s)) = last_ev (st_logv s) (v_val v0);
+    t_chain : chain (c_items c0) (st_logc s) (c_items (w_c (st_w s)));
+    t_noreorder : st_reordered s = false;
+    t_vsubs : forall u, In u (st_vsubs s) -> VSubInv (st_leftv s) (st_logv s) (v_val (w_v (st_w s))) u;
+    t_csubs : forall u, In u (st_csubs s) ->
+                        CSubInv (st_leftc s) (st_cntc s) (st_logc s) (st_pendc s) (st_tkt s) (st_pcs s)
+                                (c_items (w_c (st_w s))) u
+  }.
+
+  Lemma tinv_init : TInv s0.
   Proof.
     constructor; simpl.
     - intros t. split; [intros []|]. intros (p & H & S). rewrite nth_error_map in H.
       destruct (nth_error prog t); inversion H; subst; discriminate.
     - intros t. split; [intros []|]. intros (p & H & S). rewrite nth_error_map in H.
       destruct (nth_error prog t); inversion H; subst; discriminate.
-    - intros _ u [].
-    - intros _ u [].
-    - intros u a [].
-    - intros _ u [].
+    - constructor.
+    - constructor.
+    - reflexivity.
+    - reflexivity.
+    - reflexivity.
+    - reflexivity.
+    - reflexivity.
+    - reflexivity.
+    - intros t [].
+    - intros t [].
+    - reflexivity.
+    - apply chain_nil.
+    - reflexivity.
+    - intros u [].
     - intros u [].
   Qed.
+
+  Lemma tinv_stutter s : TInv s -> TInv (stutter s).
+  Proof. intros TI. constructor; simpl; apply TI. Qed.
 
   Lemma drop_tid_notin t l : ~ In t l -> drop_tid t l = l.
   Proof.
@@ -386,6 +574,20 @@ Section Proofs.
     unfold drop_tid. rewrite filter_In. split; intros [A B]; split; auto.
     - intros ->. rewrite Nat.eqb_refl in B. discriminate.
     - destruct (Nat.eqb_spec u t); [contradiction|reflexivity].
+  Qed.
+
+  Lemma drop_tid_head t r : ~ In t r -> drop_tid t (t :: r) = r.
+  Proof. intros H. unfold drop_tid. simpl. rewrite Nat.eqb_refl. simpl. apply (drop_tid_notin _ _ H). Qed.
+
+  Lemma nodup_drop t l : NoDup l -> NoDup (drop_tid t l).
+  Proof. intros H. unfold drop_tid. apply NoDup_filter. exact H. Qed.
+
+  Lemma nodup_snoc (t : nat) l : NoDup l -> ~ In t l -> NoDup (l ++ [t]).
+  Proof.
+    intros H Hn. induction H as [|x r Hx Hr IH]; simpl; [constructor; [intros []|constructor]|].
+    constructor.
+    - intros C. apply in_app_or in C. destruct C as [C|[C|[]]]; [contradiction|]. subst. apply Hn. left. reflexivity.
+    - apply IH. intros C. apply Hn. right. exact C.
   Qed.
 
   (* the bookkeeping of pending publications *)
@@ -404,225 +606,420 @@ Section Proofs.
       + rewrite in_drop_tid. split; [tauto|]. intros A. split; [exact A|congruence].
   Qed.
 
-  Lemma match_pv {A} (p' : pc) (a b : A) : match p' with PSavedV _ _ => a | _ => b end = if is_pv p' then a else b.
+  Lemma is_some_saved_v (p' : pc) : is_some (saved_v p') = is_pv p'.
   Proof. destruct p'; reflexivity. Qed.
-  Lemma match_pc {A} (p' : pc) (a b : A) : match p' with PSavedC _ _ => a | _ => b end = if is_pc p' then a else b.
+  Lemma is_some_saved_c (p' : pc) : is_some (saved_c p') = is_pc p'.
   Proof. destruct p'; reflexivity. Qed.
 
-  Lemma is_nil_false {A} (l : list A) : negb (is_nil l) = false -> l = [].
-  Proof. destruct l; [reflexivity|discriminate]. Qed.
-
-  Theorem sinv_step pre s t : Inv pre s -> SInv s -> SInv (step t s).
+  (* the head of the queue holds the next number *)
+  Lemma head_of_tickets (tkt : nat -> nat) pend left t :
+    map tkt pend = seq (S left) (List.length pend) -> In t pend -> tkt t = S left ->
+    exists rest, pend = t :: rest.
   Proof.
-    intros I SI. unfold Lts.step.
-    destruct (nth_error prog t) as [c|] eqn:P; [|constructor; simpl; apply SI].
-    destruct (nth_error (st_pcs s) t) as [p|] eqn:Q; [|constructor; simpl; apply SI].
-    destruct (trans c p (st_w s)) as [[[p' w'] eff]|] eqn:T; [|constructor; simpl; apply SI].
+    intros H Hin Ht. destruct pend as [|a rest]; [destruct Hin|]. simpl in H. inversion H as [[Ha Hr]].
+    destruct Hin as [->|Hin]; [eauto|]. exfalso.
+    assert (In (tkt t) (map tkt rest)) by (apply in_map; exact Hin).
+    rewrite Hr in H0. apply in_seq in H0. lia.
+  Qed.
+
+  Lemma tickets_tail (tkt : nat -> nat) t rest left :
+    map tkt (t :: rest) = seq (S left) (List.length (t :: rest)) ->
+    tkt t = S left /\ map tkt rest = seq (S (S left)) (List.length rest).
+  Proof. simpl. intros H. inversion H. auto. Qed.
+
+  Lemma tickets_bound (tkt : nat -> nat) pend left a :
+    map tkt pend = seq (S left) (List.length pend) -> In a pend -> (left < tkt a <= left + List.length pend)%nat.
+  Proof.
+    intros H Hin. assert (In (tkt a) (map tkt pend)) by (apply in_map; exact Hin).
+    rewrite H in H0. apply in_seq in H0. lia.
+  Qed.
+
+  Lemma tickets_snoc (tkt : nat -> nat) pend left t n :
+    map tkt pend = seq (S left) (List.length pend) -> ~ In t pend -> n = S (left + List.length pend) ->
+    map (fun x => if Nat.eqb x t then n else tkt x) (pend ++ [t]) = seq (S left) (List.length (pend ++ [t])).
+  Proof.
+    intros H Hn ->. rewrite map_app, app_length. simpl. rewrite Nat.add_1_r, seq_S, Nat.eqb_refl. f_equal.
+    rewrite <- H. apply map_ext_in. intros a Ha. destruct (Nat.eqb_spec a t); [subst; contradiction|reflexivity].
+  Qed.
+
+  (* ---------- a subscriber's invariant under the kinds of step ---------- *)
+  Lemma vsub_save leftv logv cur cur' e u :
+    (leftv <= List.length logv)%nat ->
+    VSubInv leftv logv cur u -> VSubInv leftv (logv ++ [e]) cur' u.
+  Proof.
+    intros L [A B C]. constructor; [exact A| |].
+    - rewrite seg_snoc_log by exact L. exact B.
+    - rewrite app_length. simpl. intros E. lia.
+  Qed.
+
+  Lemma vsub_pub leftv logv cur e u :
+    nth_error logv leftv = Some e -> VSubInv leftv logv cur u ->
+    VSubInv (S leftv) logv cur (mkVS (vs_tid u) (vs_ro u) (vs_at u) (vs_evs u ++ [e]) (vs_left u)).
+  Proof.
+    intros N [A B C]. constructor; simpl; [lia| |exact C].
+    rewrite B. symmetry. apply seg_step; assumption.
+  Qed.
+
+  Lemma vsub_new t ro (v : vstate) leftv logv : VSubInv leftv logv (v_val v) (mkVS t ro v [] leftv).
+  Proof. constructor; simpl; [lia| |reflexivity]. rewrite seg_nil by lia. reflexivity. Qed.
+
+  Lemma skip_ok_step (c : call) p w p' w' eff (pcs : list pc) t a :
+    trans c p w = Some (p', w', eff) -> nth_error pcs t = Some p ->
+    skip_ok pcs a -> skip_ok (set_nth t p' pcs) a.
+  Proof.
+    intros T Q (p0 & Q0 & S0).
+    assert (Ht : (t < List.length pcs)%nat) by (apply nth_error_Some; rewrite Q; discriminate).
+    unfold skip_ok. destruct (Nat.eq_dec t a) as [<-|Hne].
+    - rewrite nth_error_set_nth_same by exact Ht. exists p'. split; [reflexivity|].
+      rewrite Q in Q0. inversion Q0. subst p0.
+      destruct (trans_effect _ _ _ T) as (_ & TE2 & _).
+      destruct S0 as [S0|S0]; destruct p; try discriminate.
+      + destruct TE2 as [_ ->]. right. reflexivity.
+      + rewrite trans_not_done in T. discriminate.
+    - rewrite nth_error_set_nth_other by exact Hne. eauto.
+  Qed.
+
+  Lemma csub_frame leftc cntc logc pendc (tkt tkt' : nat -> nat) (pcs pcs' : list pc) items items' u :
+    items' = items -> (forall a, In a pendc -> tkt' a = tkt a) ->
+    (forall a, skip_ok pcs a -> skip_ok pcs' a) ->
+    CSubInv leftc cntc logc pendc tkt pcs items u -> CSubInv leftc cntc logc pendc tkt' pcs' items' u.
+  Proof.
+    intros -> Ht Hs [A B C D E F G H J K]. constructor; auto.
+    intros UO a Ha. rewrite (Ht _ Ha). apply E; assumption.
+  Qed.
+
+  Lemma csub_save leftc cntc logc pendc (tkt : nat -> nat) (pcs pcs' : list pc) items items' e t u :
+    List.length logc = cntc -> (leftc <= cntc)%nat ->
+    describes e items items' -> ~ In t pendc -> ~ In t (cs_skip u) ->
+    (forall a, skip_ok pcs a -> skip_ok pcs' a) ->
+    CSubInv leftc cntc logc pendc tkt pcs items u ->
+    CSubInv leftc (S cntc) (logc ++ [e]) (pendc ++ [t]) (fun x => if Nat.eqb x t then S cntc else tkt x) pcs' items' u.
+  Proof.
+    intros Hl Hle D Hnp Hns Hs [A B C E F G H J K L]. constructor; auto.
+    - rewrite seg_snoc_log by lia. exact E.
+    - intros UO a Ha. apply in_app_or in Ha. destruct Ha as [Ha|[<-|[]]].
+      + destruct (Nat.eqb_spec a t) as [->|Hne]; [contradiction|]. apply F; assumption.
+      + rewrite Nat.eqb_refl. split; [intros X; contradiction|intros X; lia].
+    - intros UO. rewrite skipn_snoc by lia. eapply chain_snoc; [apply K; exact UO|exact D].
+    - intros UO. destruct (L UO) as (L0 & CL). exists L0. rewrite skipn_snoc by lia. eapply chain_snoc; eassumption.
+  Qed.
+
+  Lemma from_c_le leftc cntc logc pendc tkt pcs items u :
+    CSubInv leftc cntc logc pendc tkt pcs items u -> (from_c u <= cntc)%nat.
+  Proof. intros [A B C _ _ _ _ _ _ _]. unfold from_c. destruct (ro_updates_only (cs_ro u)); lia. Qed.
+
+  Lemma csub_del cntc logc (tkt : nat -> nat) (pcs pcs' : list pc) items items' e u :
+    List.length logc = cntc -> describes e items items' ->
+    (forall a, skip_ok pcs a -> skip_ok pcs' a) ->
+    CSubInv cntc cntc logc [] tkt pcs items u ->
+    CSubInv (S cntc) (S cntc) (logc ++ [e]) [] tkt pcs' items'
+            (mkCS (cs_tid u) (cs_ro u) (cs_at u) (cs_evs u ++ [e]) (cs_skip u) (cs_left u) (cs_cnt u)).
+  Proof.
+    intros Hl D Hs CI. pose proof (from_c_le CI) as Hf. destruct CI as [A B C E F G H J K L].
+    constructor; simpl; auto.
+    - unfold from_c in *. simpl. rewrite E.
+      rewrite (@seg_step _ _ cntc (logc ++ [e]) e); [|exact Hf|rewrite nth_error_app2 by lia; rewrite Hl, Nat.sub_diag; reflexivity].
+      rewrite seg_snoc_log by lia. reflexivity.
+    - intros UO. rewrite skipn_snoc by lia. eapply chain_snoc; [apply K; exact UO|exact D].
+    - intros UO. destruct (L UO) as (L0 & CL). exists L0. rewrite skipn_snoc by lia. eapply chain_snoc; eassumption.
+  Qed.
+
+  Lemma existsb_eqb_in t l : existsb (Nat.eqb t) l = true <-> In t l.
+  Proof.
+    rewrite existsb_exists. split; [intros (a & Ha & E); apply Nat.eqb_eq in E; subst; exact Ha|].
+    intros H. exists t. split; [exact H|apply Nat.eqb_refl].
+  Qed.
+
+  Lemma csub_pub leftc cntc logc rest (tkt : nat -> nat) (pcs pcs' : list pc) items e t u :
+    tkt t = S leftc -> nth_error logc leftc = Some e ->
+    (forall a, skip_ok pcs a -> skip_ok pcs' a) ->
+    CSubInv leftc cntc logc (t :: rest) tkt pcs items u ->
+    CSubInv (S leftc) cntc logc rest tkt pcs' items
+            (if existsb (Nat.eqb t) (cs_skip u) then u
+             else mkCS (cs_tid u) (cs_ro u) (cs_at u) (cs_evs u ++ [e]) (cs_skip u) (cs_left u) (cs_cnt u)).
+  Proof.
+    intros Ht N Hs [A B C E F G H J K L].
+    assert (Hfrom : existsb (Nat.eqb t) (cs_skip u) = true -> (S leftc <= from_c u)%nat).
+    { intros X. apply existsb_eqb_in in X. unfold from_c. destruct (ro_updates_only (cs_ro u)) eqn:UO.
+      - rewrite (H eq_refl) in X. destruct X.
+      - apply (F eq_refl t (or_introl eq_refl)) in X. lia. }
+    assert (Hfrom' : existsb (Nat.eqb t) (cs_skip u) = false -> (from_c u <= leftc)%nat).
+    { intros X. unfold from_c. destruct (ro_updates_only (cs_ro u)) eqn:UO; [exact B|].
+      destruct (le_lt_dec (cs_cnt u) leftc) as [Y|Y]; [exact Y|exfalso].
+      assert (Z : In t (cs_skip u)) by (apply (F eq_refl t (or_introl eq_refl)); lia).
+      apply existsb_eqb_in in Z. congruence. }
+    destruct (existsb (Nat.eqb t) (cs_skip u)) eqn:SK.
+    - constructor; auto.
+      + rewrite E. rewrite !seg_nil; [reflexivity| |]; specialize (Hfrom eq_refl); lia.
+      + intros UO a Ha. apply F; [exact UO|right; exact Ha].
+    - constructor; simpl; auto.
+      + unfold from_c in *. simpl. rewrite E. symmetry. apply seg_step; [apply Hfrom'; reflexivity|exact N].
+      + intros UO a Ha. apply F; [exact UO|right; exact Ha].
+  Qed.
+
+  Lemma csub_new t ro (c : cstate) leftc cntc logc pendc (tkt : nat -> nat) (pcs : list pc) L0 :
+    sorted (c_items c) -> List.length logc = cntc -> cntc = (leftc + List.length pendc)%nat ->
+    map tkt pendc = seq (S leftc) (List.length pendc) ->
+    (forall a, In a pendc -> skip_ok pcs a) -> chain L0 logc (c_items c) ->
+    CSubInv leftc cntc logc pendc tkt pcs (c_items c)
+            (mkCS t ro c [] (if ro_updates_only ro then [] else pendc) leftc cntc).
+  Proof.
+    intros Hs Hl Hc Htk Hp Ch. constructor; simpl; auto; try lia.
+    - unfold from_c. simpl. rewrite seg_nil; [reflexivity|]. destruct (ro_updates_only ro); lia.
+    - intros UO a Ha. rewrite UO. split; [intros _|intros _; exact Ha].
+      pose proof (@tickets_bound _ _ _ _ Htk Ha). lia.
+    - intros a Ha. destruct (ro_updates_only ro); [destruct Ha|]. apply Hp. exact Ha.
+    - intros UO. rewrite UO. reflexivity.
+    - intros UO. rewrite skipn_all2 by lia. apply chain_nil.
+    - intros UO. rewrite <- (firstn_skipn leftc logc) in Ch. apply chain_split in Ch.
+      destruct Ch as (m & _ & Cm). exists m. exact Cm.
+  Qed.
+
+  Lemma pend_ev_keep {X} (f : pc -> option X) (pcs : list pc) (t a : nat) (p' : pc) (tkt : nat -> nat) (log ex : list X) n :
+    a <> t -> n = tkt a ->
+    (exists q e, nth_error pcs a = Some q /\ f q = Some e /\ nth_error log (tkt a - 1) = Some e) ->
+    exists q e, nth_error (set_nth t p' pcs) a = Some q /\ f q = Some e /\ nth_error (log ++ ex) (n - 1) = Some e.
+  Proof.
+    intros Hne -> (q & e & A & B & C). exists q, e. rewrite nth_error_set_nth_other by congruence.
+    split; [exact A|]. split; [exact B|]. rewrite nth_error_app1; [exact C|]. apply nth_error_Some. rewrite C. discriminate.
+  Qed.
+
+  Lemma pend_ev_new {X} (f : pc -> option X) (pcs : list pc) (t : nat) (p' : pc) (log : list X) e n :
+    (t < List.length pcs)%nat -> f p' = Some e -> n = List.length log ->
+    exists q e0, nth_error (set_nth t p' pcs) t = Some q /\ f q = Some e0 /\ nth_error (log ++ [e]) (S n - 1) = Some e0.
+  Proof.
+    intros Ht Hf ->. exists p', e. rewrite nth_error_set_nth_same by exact Ht. split; [reflexivity|]. split; [exact Hf|].
+    replace (S (List.length log) - 1)%nat with (List.length log) by lia.
+    rewrite nth_error_app2 by lia. rewrite Nat.sub_diag. reflexivity.
+  Qed.
+
+  Lemma tkt_upd_other (tkt : nat -> nat) t n pend :
+    ~ In t pend -> map (fun x => if Nat.eqb x t then n else tkt x) pend = map tkt pend.
+  Proof.
+    intros H. apply map_ext_in. intros a Ha. destruct (Nat.eqb_spec a t); [subst; contradiction|reflexivity].
+  Qed.
+
+  Theorem tinv_step pre s t : Inv pre s -> TInv s -> TInv (step t s).
+  Proof.
+    intros I TI. unfold Lts.step.
+    destruct (nth_error prog t) as [c|] eqn:P; [|apply tinv_stutter; exact TI].
+    destruct (nth_error (st_pcs s) t) as [p|] eqn:Q; [|apply tinv_stutter; exact TI].
+    destruct (trans c p (st_w s)) as [[[p' w'] eff]|] eqn:T; [|apply tinv_stutter; exact TI].
+    destruct (gate_open false t s p eff) eqn:G; [|apply tinv_stutter; exact TI].
     destruct (i_local I _ P Q) as [Hwf _].
     assert (Ht : (t < List.length (st_pcs s))%nat) by (apply nth_error_Some; rewrite Q; discriminate).
-    destruct (trans_effect _ _ _ T) as (TE1 & TE2 & TE3).
-    pose proof (trans_value _ _ _ T) as TV.
-    pose proof (@trans_coll _ _ _ _ _ _ (prog_ok _ P) Hwf (i_sorted I) T) as TC.
-    constructor; simpl.
-    - (* pending Value publications *)
-      rewrite match_pv. apply pend_step; [exact Ht|apply (si_pv SI)].
-    - rewrite match_pc. apply pend_step; [exact Ht|apply (si_pc SI)].
-    - (* ---- Value subscribers ---- *)
-      intros Ho. apply orb_false_iff in Ho. destruct Ho as [Ho1 Ho2]. pose proof (si_v SI Ho1) as V.
-      rewrite match_pv. destruct (is_pv p') eqn:PV.
-      + (* the save of a Set *)
-        destruct p' as [| | nv e | | | |]; try discriminate. apply is_nil_false in Ho2. rewrite Ho2. simpl.
-        exists nv, e. rewrite nth_error_set_nth_same by exact Ht. destruct TV as [A B]. auto.
-      + destruct (is_pv p) eqn:PVp.
-        * (* the publication of a Set *)
-          destruct p as [| | nv e | | | |]; try discriminate. destruct TE2 as [-> ->].
-          destruct TE1 as (nv' & E & ->). clear E.
-          assert (Hin : In t (st_pendv s)) by (apply (si_pv SI); eauto).
-          destruct (st_pendv s) as [|a [|b r]]; [destruct Hin| |contradiction].
-          destruct Hin as [->|[]]. destruct V as (nv0 & e0 & Q0 & Ev & Hv). rewrite Q in Q0.
-          assert (E2 : nv0 = nv /\ e0 = e) by (inversion Q0; split; reflexivity). destruct E2 as [E2a E2b].
-          rewrite E2b in Ev. rewrite E2a in Ev, Hv.
-          unfold drop_tid. simpl. rewrite Nat.eqb_refl. simpl.
-          intros u Hu. apply in_map_iff in Hu. destruct Hu as (u0 & <- & _). right.
-          unfold vlast. simpl. rewrite rev_app_distr. simpl. rewrite Hv, Ev. reflexivity.
-        * (* any other step *)
-          assert (Hnin : ~ In t (st_pendv s)).
-          { intros C. apply (si_pv SI) in C. destruct C as (p0 & Q0 & S0). rewrite Q in Q0. inversion Q0. subst. congruence. }
-          rewrite (drop_tid_notin _ _ Hnin).
-          assert (Ev : w_v w' = w_v (st_w s)) by (destruct p'; try exact TV; discriminate).
-          rewrite Ev.
-          assert (Esubs : forall u, In u (match eff with
-                                          | EPubV e => map (fun u => mkVS (vs_tid u) (vs_ro u) (vs_at u) (vs_evs u ++ [e])) (st_vsubs s)
-                                          | ESubV ro => st_vsubs s ++ [mkVS t ro (w_v (st_w s)) []]
-                                          | _ => st_vsubs s end) ->
-                                    In u (st_vsubs s) \/ exists ro, u = mkVS t ro (w_v (st_w s)) []).
-          { destruct eff; intros u Hu; auto.
-            - destruct TE1 as (nv & -> & _). discriminate.
-            - apply in_app_or in Hu. destruct Hu as [Hu|[<-|[]]]; eauto. }
-          destruct (st_pendv s) as [|a [|b r]]; [| |contradiction].
-          -- intros u Hu. apply Esubs in Hu. destruct Hu as [Hu|(ro & ->)]; [apply V; exact Hu|].
-             unfold vgood, vlast. simpl. destruct (ro_updates_only ro); auto.
-          -- destruct V as (nv0 & e0 & Q0 & Ev0 & Hv). exists nv0, e0.
-             rewrite nth_error_set_nth_other; [auto|]. intros ->. apply Hnin. left. reflexivity.
-    - (* ---- Collection subscribers ---- *)
-      intros Ho. apply orb_false_iff in Ho. destruct Ho as [Ho1 Ho2]. pose proof (si_c SI Ho1) as V.
-      rewrite match_pc. destruct (is_pc p') eqn:PC.
-      + (* the save of an Update *)
-        destruct p' as [| | | nv e | | |]; try discriminate. apply is_nil_false in Ho2. rewrite Ho2 in *. simpl.
-        simpl in TC. exists nv, e, (c_items (w_c (st_w s))).
-        rewrite nth_error_set_nth_same by exact Ht. split; [reflexivity|]. split; [exact TC|].
-        rewrite TE3. intros u Hu Hp.
-        replace (existsb (Nat.eqb t) (cs_skip u)) with false; [apply V; assumption|].
-        symmetry. apply not_true_is_false. intros C. apply existsb_exists in C. destruct C as (a & Ha & Ea).
-        apply Nat.eqb_eq in Ea. subst a. destruct (si_skip SI _ _ Hu Ha) as (p0 & Q0 & S0).
-        rewrite Q in Q0. inversion Q0. subst p0.
-        destruct S0 as [S0|S0]; destruct p; try discriminate S0.
-        -- destruct TE2 as [_ C]. discriminate C.
-        -- destruct c; discriminate T.
-      + destruct (is_pc p) eqn:PCp.
-        * (* the publication of an Update *)
-          destruct p as [| | | nv e | | |]; try discriminate. destruct TE2 as [-> ->].
-          destruct TE1 as [(nv' & E & ->)|(seen & n & r & E & _)]; [clear E|discriminate].
-          assert (Hin : In t (st_pendc s)) by (apply (si_pc SI); eauto).
-          destruct (st_pendc s) as [|a [|b r]]; [destruct Hin| |contradiction].
-          destruct Hin as [->|[]]. destruct V as (nv0 & e0 & lprev & Q0 & D & Hv). rewrite Q in Q0.
-          assert (E2 : e0 = e) by (inversion Q0; reflexivity). rewrite E2 in D.
-          unfold drop_tid. simpl. rewrite Nat.eqb_refl. simpl.
-          intros u Hu Hp. apply in_map_iff in Hu. destruct Hu as (u0 & <- & Hu0).
-          destruct u0 as [tid ro at_ evs sk]. simpl in *.
-          destruct (existsb (Nat.eqb t) sk) eqn:SK.
-          -- pose proof (Hv _ Hu0 Hp) as K. simpl in K. rewrite SK in K. exact K.
-          -- simpl in *. rewrite cview_snoc. pose proof (Hv _ Hu0 Hp) as K. simpl in K. rewrite SK in K.
-             eapply forward_one_keeps_inv; eauto.
-        * assert (Hnin : ~ In t (st_pendc s)).
-          { intros C. apply (si_pc SI) in C. destruct C as (p0 & Q0 & S0). rewrite Q in Q0. inversion Q0. subst. congruence. }
-          rewrite (drop_tid_notin _ _ Hnin).
-          destruct (match p, eff with PDel _ _, EPubC _ => true | _, _ => false end) eqn:DC.
-          -- (* a Delete commits and publishes under the lock *)
-             destruct p as [| | | |seen n| |]; try discriminate. destruct eff as [| |e| |]; try discriminate.
-             assert (Ho3 : st_pendc s = []).
-             { destruct p'; simpl in Ho2; try discriminate; apply is_nil_false; exact Ho2. }
-             rewrite Ho3 in *.
-             assert (D : describes e (c_items (w_c (st_w s))) (c_items (w_c w'))).
-             { destruct p'; try discriminate; exact TC. }
-             intros u Hu Hp. apply in_map_iff in Hu. destruct Hu as (u0 & <- & Hu0).
-             assert (SK : existsb (Nat.eqb t) (cs_skip u0) = false).
-             { apply not_true_is_false. intros C. apply existsb_exists in C. destruct C as (a & Ha & Ea).
-               apply Nat.eqb_eq in Ea. subst a. destruct (si_skip SI _ _ Hu0 Ha) as (p0 & Q0 & S0).
-               rewrite Q in Q0. inversion Q0. subst p0. destruct S0; discriminate. }
-             rewrite SK in *.
-             destruct u0 as [tid ro at_ evs sk]. simpl in *. rewrite cview_snoc.
-             eapply forward_one_keeps_inv; [exact D|]. apply (V _ Hu0 Hp).
-          -- (* a step that leaves the contents alone *)
-             assert (Ec : c_items (w_c w') = c_items (w_c (st_w s))).
-             { destruct p'; try discriminate; destruct p; try discriminate; destruct eff; try discriminate; exact TC. }
-             rewrite Ec.
-             assert (Esubs : forall u, In u (match eff with
-                                             | EPubC e => map (fun u => if existsb (Nat.eqb t) (cs_skip u) then u
-                                                                        else mkCS (cs_tid u) (cs_ro u) (cs_at u) (cs_evs u ++ [e]) (cs_skip u)) (st_csubs s)
-                                             | ESubC ro => st_csubs s ++ [mkCS t ro (w_c (st_w s)) [] (if ro_updates_only ro then [] else st_pendc s)]
-                                             | _ => st_csubs s end) ->
-                                       In u (st_csubs s) \/ exists ro, u = mkCS t ro (w_c (st_w s)) [] (if ro_updates_only ro then [] else st_pendc s)).
-             { destruct eff; intros u Hu; auto.
-               - destruct TE1 as [(nv & -> & _)|(seen & n & r & -> & _)]; discriminate.
-               - apply in_app_or in Hu. destruct Hu as [Hu|[<-|[]]]; eauto. }
-             assert (Hfresh : forall ro sk, plain_sub (mkCS t ro (w_c (st_w s)) [] sk) ->
-                                         view_inv ro (cview (mkCS t ro (w_c (st_w s)) [] sk)) (c_items (w_c (st_w s)))).
-             { intros ro sk UO. apply cview_fresh; [exact UO|apply (i_sorted I)]. }
-             destruct (st_pendc s) as [|a [|b r]]; [| |contradiction].
-             ++ intros u Hu Hp. apply Esubs in Hu. destruct Hu as [Hu|(ro & ->)]; [apply V; assumption|].
-                apply Hfresh. exact Hp.
-             ++ destruct V as (nv0 & e0 & lprev & Q0 & D & Hv). exists nv0, e0, lprev.
-                split; [rewrite nth_error_set_nth_other; [exact Q0|]; intros ->; apply Hnin; left; reflexivity|].
-                split; [exact D|].
-                intros u Hu Hp. apply Esubs in Hu. destruct Hu as [Hu|(ro & ->)]; [apply Hv; assumption|].
-                pose proof Hp as UO. unfold plain_sub in UO. simpl in UO.
-                assert (Es : (if ro_updates_only ro then [] else [a]) = [a]) by (rewrite UO; reflexivity).
-                rewrite Es in *. simpl. rewrite Nat.eqb_refl. simpl. apply Hfresh. exact Hp.
-    - (* snapshots are ahead of committed threads only *)
-      intros u a Hu Ha.
-      assert (G : (exists u0, In u0 (st_csubs s) /\ In a (cs_skip u0)) \/ In a (st_pendc s)).
-      { destruct eff; try (left; exists u; split; assumption).
-        - apply in_map_iff in Hu. destruct Hu as (u0 & E & Hu0). left. exists u0. split; [exact Hu0|].
-          destruct (existsb (Nat.eqb t) (cs_skip u0)); subst u; exact Ha.
-        - apply in_app_or in Hu. destruct Hu as [Hu|[<-|[]]]; [left; exists u; split; assumption|].
-          simpl in Ha. destruct (ro_updates_only ro); [destruct Ha|right; exact Ha]. }
-      assert (G2 : exists p0, nth_error (st_pcs s) a = Some p0 /\ (is_pc p0 = true \/ is_done p0 = true)).
-      { destruct G as [(u0 & Hu0 & Ha0)|Hp]; [eapply si_skip; eauto|].
-        apply (si_pc SI) in Hp. destruct Hp as (p0 & Q0 & S0). eauto. }
-      destruct G2 as (p0 & Q0 & S0).
-      destruct (Nat.eq_dec t a) as [<-|Hne].
-      + rewrite nth_error_set_nth_same by exact Ht. exists p'. split; [reflexivity|].
-        rewrite Q in Q0. inversion Q0. subst p0. destruct S0 as [S0|S0].
-        * destruct p; try discriminate. destruct TE2 as [_ ->]. right. reflexivity.
-        * destruct p; try discriminate. destruct c; discriminate T.
-      + rewrite nth_error_set_nth_other by exact Hne. eauto.
-    - (* ---- updates-only Collection subscribers ---- *)
-      intros Ho. apply orb_false_iff in Ho. destruct Ho as [Ho1 Ho2]. pose proof (si_cu SI Ho1) as V.
-      assert (Hdeliver : forall e l l',
-                 describes e l l' ->
-                 (forall u, In u (st_csubs s) -> uo_sub u -> uview_inv u l) ->
-                 forall u, In u (map (fun u => if existsb (Nat.eqb t) (cs_skip u) then u
-                                                else mkCS (cs_tid u) (cs_ro u) (cs_at u) (cs_evs u ++ [e]) (cs_skip u)) (st_csubs s)) ->
-                           uo_sub u -> uview_inv u l').
-      { intros e l l' D Hv u Hu Hp. apply in_map_iff in Hu. destruct Hu as (u0 & <- & Hu0).
-        assert (Hp0 : uo_sub u0).
-        { destruct (existsb (Nat.eqb t) (cs_skip u0)); [exact Hp|]. destruct u0; exact Hp. }
-        rewrite (si_uskip SI _ Hu0 (proj2 Hp0)). simpl.
-        specialize (Hv _ Hu0 Hp0). destruct u0 as [tid ro at_ evs sk]. simpl in *.
-        eapply uview_snoc; [apply Hp0|exact D|exact Hv]. }
-      rewrite match_pc. destruct (is_pc p') eqn:PC.
-      + destruct p' as [| | | nv e | | |]; try discriminate. apply is_nil_false in Ho2. rewrite Ho2 in *. simpl.
-        simpl in TC. exists nv, e, (c_items (w_c (st_w s))).
-        rewrite nth_error_set_nth_same by exact Ht. split; [reflexivity|]. split; [exact TC|].
-        rewrite TE3. exact V.
-      + destruct (is_pc p) eqn:PCp.
-        * destruct p as [| | | nv e | | |]; try discriminate. destruct TE2 as [-> ->].
-          destruct TE1 as [(nv' & E & ->)|(seen & n & r & E & _)]; [clear E|discriminate].
-          assert (Hin : In t (st_pendc s)) by (apply (si_pc SI); eauto).
-          destruct (st_pendc s) as [|a [|b r]]; [destruct Hin| |contradiction].
-          destruct Hin as [->|[]]. destruct V as (nv0 & e0 & lprev & Q0 & D & Hv). rewrite Q in Q0.
-          assert (E2 : e0 = e) by (inversion Q0; reflexivity). rewrite E2 in D.
-          unfold drop_tid. simpl. rewrite Nat.eqb_refl. simpl.
-          eapply Hdeliver; eauto.
-        * assert (Hnin : ~ In t (st_pendc s)).
-          { intros C. apply (si_pc SI) in C. destruct C as (p0 & Q0 & S0). rewrite Q in Q0. inversion Q0. subst. congruence. }
-          rewrite (drop_tid_notin _ _ Hnin).
-          destruct (match p, eff with PDel _ _, EPubC _ => true | _, _ => false end) eqn:DC.
-          -- destruct p as [| | | |seen n| |]; try discriminate. destruct eff as [| |e| |]; try discriminate.
-             assert (Ho3 : st_pendc s = []).
-             { destruct p'; simpl in Ho2; try discriminate; apply is_nil_false; exact Ho2. }
-             rewrite Ho3 in *.
-             assert (D : describes e (c_items (w_c (st_w s))) (c_items (w_c w'))).
-             { destruct p'; try discriminate; exact TC. }
-             eapply Hdeliver; eauto.
-          -- assert (Ec : c_items (w_c w') = c_items (w_c (st_w s))).
-             { destruct p'; try discriminate; destruct p; try discriminate; destruct eff; try discriminate; exact TC. }
-             rewrite Ec.
-             assert (Esubs : forall u, In u (match eff with
-                                             | EPubC e => map (fun u => if existsb (Nat.eqb t) (cs_skip u) then u
-                                                                        else mkCS (cs_tid u) (cs_ro u) (cs_at u) (cs_evs u ++ [e]) (cs_skip u)) (st_csubs s)
-                                             | ESubC ro => st_csubs s ++ [mkCS t ro (w_c (st_w s)) [] (if ro_updates_only ro then [] else st_pendc s)]
-                                             | _ => st_csubs s end) ->
-                                       In u (st_csubs s) \/ exists ro sk, u = mkCS t ro (w_c (st_w s)) [] sk).
-             { destruct eff; intros u Hu; auto.
-               - destruct TE1 as [(nv & -> & _)|(seen & n & r & -> & _)]; discriminate.
-               - apply in_app_or in Hu. destruct Hu as [Hu|[<-|[]]]; eauto. }
-             destruct (st_pendc s) as [|a [|b r]]; [| |contradiction].
-             ++ intros u Hu Hp. apply Esubs in Hu. destruct Hu as [Hu|(ro & sk & ->)]; [apply V; assumption|].
-                apply uview_fresh. apply Hp.
-             ++ destruct V as (nv0 & e0 & lprev & Q0 & D & Hv). exists nv0, e0, lprev.
-                split; [rewrite nth_error_set_nth_other; [exact Q0|]; intros ->; apply Hnin; left; reflexivity|].
-                split; [exact D|].
-                intros u Hu Hp. apply Esubs in Hu. destruct Hu as [Hu|(ro & sk & ->)]; [apply Hv; assumption|].
-                apply uview_fresh. apply Hp.
-    - (* updates-only subscriptions drop nothing *)
-      intros u Hu UO. destruct eff; try (apply (si_uskip SI); assumption).
-      + apply in_map_iff in Hu. destruct Hu as (u0 & E & Hu0).
-        destruct (existsb (Nat.eqb t) (cs_skip u0)); subst u; [apply (si_uskip SI); assumption|].
-        simpl in *. apply (si_uskip SI); assumption.
-      + apply in_app_or in Hu. destruct Hu as [Hu|[<-|[]]]; [apply (si_uskip SI); assumption|].
-        simpl in *. rewrite UO. reflexivity.
+    assert (Hnv : is_pv p = false -> ~ In t (st_pendv s)).
+    { intros E C. apply (t_pv TI) in C. destruct C as (p0 & Q0 & S0). rewrite Q in Q0. inversion Q0. subst. congruence. }
+    assert (Hnc : is_pc p = false -> ~ In t (st_pendc s)).
+    { intros E C. apply (t_pc TI) in C. destruct C as (p0 & Q0 & S0). rewrite Q in Q0. inversion Q0. subst. congruence. }
+    assert (Hsk : forall a, skip_ok (st_pcs s) a -> skip_ok (set_nth t p' (st_pcs s)) a).
+    { intros a. eapply skip_ok_step; eassumption. }
+    assert (Hlv : (st_leftv s <= List.length (st_logv s))%nat) by (rewrite (t_lenv TI), (t_cntv TI); lia).
+    assert (Hlc : (st_leftc s <= List.length (st_logc s))%nat) by (rewrite (t_lenc TI), (t_cntc TI); lia).
+    assert (Hnsk : is_pc p = false -> is_done p = false -> forall u, In u (st_csubs s) -> ~ In t (cs_skip u)).
+    { intros E1 E2 u Hu C. destruct (ci_skip (t_csubs TI _ Hu) _ C) as (p0 & Q0 & S0).
+      rewrite Q in Q0. inversion Q0. subst. destruct S0; congruence. }
+    assert (Hnd : is_done p = false).
+    { destruct p; try reflexivity. rewrite trans_not_done in T. discriminate. }
+    pose proof (@trans_class _ _ _ _ _ _ (prog_ok _ P) Hwf (i_sorted I) T) as K.
+    destruct K as [nv e -> -> Hpv Hpc Ev Vv Ec|nv e -> -> Hpv Hpc Ev D|nv e -> -> -> ->|nv e -> -> -> ->
+                  |seen n r e -> -> -> Ev D|ro r -> -> -> ->|ro r -> -> Hp ->| -> Hpv Hpc Hpv' Hpc' Ev Ec].
+    - (* ---- a Set saves ---- *)
+      rewrite Hpv, Hpc, del_ev_none. constructor; simpl; rewrite ?app_nil_r.
+      + exact (@pend_step (@is_pv M) _ _ _ (PSavedV nv e) Ht (t_pv TI)).
+      + exact (@pend_step (@is_pc M) _ _ _ (PSavedV nv e) Ht (t_pc TI)).
+      + apply nodup_snoc; [apply TI|apply Hnv; exact Hpv].
+      + apply nodup_drop. apply TI.
+      + apply tickets_snoc; [apply TI|apply Hnv; exact Hpv|rewrite (t_cntv TI); reflexivity].
+      + rewrite drop_tid_notin by exact (Hnc Hpc). rewrite tkt_upd_other by exact (Hnc Hpc). apply TI.
+      + rewrite app_length, (t_cntv TI). simpl. lia.
+      + rewrite drop_tid_notin by exact (Hnc Hpc). apply TI.
+      + rewrite app_length, (t_lenv TI). simpl. lia.
+      + apply TI.
+      + intros a Ha. apply in_app_or in Ha. destruct Ha as [Ha|[<-|[]]].
+        * apply pend_ev_keep with (tkt := st_tkt s); [intros ->; apply (Hnv Hpv); exact Ha| |apply (t_evv TI); exact Ha].
+          destruct (Nat.eqb_spec a t); [subst; exfalso; apply (Hnv Hpv); exact Ha|reflexivity].
+        * rewrite Nat.eqb_refl. apply pend_ev_new; [exact Ht|reflexivity|symmetry; apply TI].
+      + rewrite drop_tid_notin by exact (Hnc Hpc). intros a Ha.
+        rewrite <- (app_nil_r (st_logc s)).
+        apply pend_ev_keep with (tkt := st_tkt s); [intros ->; apply (Hnc Hpc); exact Ha| |apply (t_evc TI); exact Ha].
+        destruct (Nat.eqb_spec a t); [subst; exfalso; apply (Hnc Hpc); exact Ha|reflexivity].
+      + unfold last_ev. rewrite rev_app_distr. simpl. rewrite Vv, Ev. reflexivity.
+      + rewrite Ec. apply TI.
+      + rewrite orb_false_r. apply TI.
+      + intros u Hu. apply vsub_save with (cur := v_val (w_v (st_w s))); [exact Hlv|apply TI; exact Hu].
+      + intros u Hu. rewrite drop_tid_notin by exact (Hnc Hpc).
+        eapply csub_frame; [exact Ec| |exact Hsk|apply TI; exact Hu].
+        intros a Ha. destruct (Nat.eqb_spec a t); [subst; exfalso; apply (Hnc Hpc); exact Ha|reflexivity].
+    - (* ---- an Update saves ---- *)
+      rewrite Hpv, Hpc, del_ev_none. constructor; simpl; rewrite ?app_nil_r.
+      + exact (@pend_step (@is_pv M) _ _ _ (PSavedC nv e) Ht (t_pv TI)).
+      + exact (@pend_step (@is_pc M) _ _ _ (PSavedC nv e) Ht (t_pc TI)).
+      + apply nodup_drop. apply TI.
+      + apply nodup_snoc; [apply TI|exact (Hnc Hpc)].
+      + rewrite drop_tid_notin by exact (Hnv Hpv). rewrite tkt_upd_other by exact (Hnv Hpv). apply TI.
+      + apply tickets_snoc; [apply TI|exact (Hnc Hpc)|rewrite (t_cntc TI); reflexivity].
+      + rewrite drop_tid_notin by exact (Hnv Hpv). apply TI.
+      + rewrite app_length, (t_cntc TI). simpl. lia.
+      + apply TI.
+      + rewrite app_length, (t_lenc TI). simpl. lia.
+      + rewrite drop_tid_notin by exact (Hnv Hpv). intros a Ha.
+        rewrite <- (app_nil_r (st_logv s)).
+        apply pend_ev_keep with (tkt := st_tkt s); [intros ->; apply (Hnv Hpv); exact Ha| |apply (t_evv TI); exact Ha].
+        destruct (Nat.eqb_spec a t); [subst; exfalso; apply (Hnv Hpv); exact Ha|reflexivity].
+      + intros a Ha. apply in_app_or in Ha. destruct Ha as [Ha|[<-|[]]].
+        * apply pend_ev_keep with (tkt := st_tkt s); [intros ->; apply (Hnc Hpc); exact Ha| |apply (t_evc TI); exact Ha].
+          destruct (Nat.eqb_spec a t); [subst; exfalso; apply (Hnc Hpc); exact Ha|reflexivity].
+        * rewrite Nat.eqb_refl. apply pend_ev_new; [exact Ht|reflexivity|symmetry; apply TI].
+      + rewrite Ev. apply TI.
+      + eapply chain_snoc; [apply TI|exact D].
+      + rewrite orb_false_r. apply TI.
+      + intros u Hu. rewrite Ev. apply TI. exact Hu.
+      + intros u Hu. eapply csub_save; [apply TI|rewrite (t_cntc TI); lia|exact D|exact (Hnc Hpc)|exact (Hnsk Hpc Hnd _ Hu)|exact Hsk|apply TI; exact Hu].
+    - (* ---- a Set publishes: it holds the next number ---- *)
+      simpl in G. apply Nat.eqb_eq in G.
+      assert (Hin : In t (st_pendv s)) by (apply (t_pv TI); eauto).
+      destruct (@head_of_tickets _ _ _ _ (t_tkv TI) Hin G) as (rest & Ep).
+      pose proof (t_ndv TI) as ND. rewrite Ep in ND. inversion ND as [|x l Hnr NDr]. subst x l.
+      pose proof (t_tkv TI) as TK. rewrite Ep in TK. apply tickets_tail in TK. destruct TK as [_ TK].
+      destruct (t_evv TI _ Hin) as (q & e0 & Q0 & S0 & N0). rewrite Q in Q0. inversion Q0. subst q.
+      simpl in S0. inversion S0. subst e0. rewrite G in N0. simpl in N0. rewrite Nat.sub_0_r in N0.
+      assert (Hnc' : ~ In t (st_pendc s)) by (apply Hnc; reflexivity).
+      constructor; simpl; rewrite ?app_nil_r.
+      + exact (@pend_step (@is_pv M) _ _ _ (PDone (OVal (inl nv))) Ht (t_pv TI)).
+      + exact (@pend_step (@is_pc M) _ _ _ (PDone (OVal (inl nv))) Ht (t_pc TI)).
+      + apply nodup_drop. apply TI.
+      + apply nodup_drop. apply TI.
+      + rewrite Ep, drop_tid_head by exact Hnr. rewrite G. exact TK.
+      + rewrite drop_tid_notin by exact Hnc'. apply TI.
+      + rewrite Ep, drop_tid_head by exact Hnr. rewrite G, (t_cntv TI), Ep. simpl. lia.
+      + rewrite drop_tid_notin by exact Hnc'. apply TI.
+      + apply TI.
+      + apply TI.
+      + intros a Ha. apply in_drop_tid in Ha. destruct Ha as [Ha Hne]. rewrite <- (app_nil_r (st_logv s)).
+        apply pend_ev_keep with (tkt := st_tkt s); [exact Hne|reflexivity|apply (t_evv TI); exact Ha].
+      + intros a Ha. apply in_drop_tid in Ha. destruct Ha as [Ha Hne]. rewrite <- (app_nil_r (st_logc s)).
+        apply pend_ev_keep with (tkt := st_tkt s); [exact Hne|reflexivity|apply (t_evc TI); exact Ha].
+      + apply TI.
+      + apply TI.
+      + rewrite Ep. simpl. rewrite Nat.eqb_refl. simpl. rewrite orb_false_r. apply TI.
+      + intros u Hu. apply in_map_iff in Hu. destruct Hu as (u0 & <- & Hu0). rewrite G.
+        apply vsub_pub; [exact N0|apply TI; exact Hu0].
+      + intros u Hu. rewrite drop_tid_notin by exact Hnc'.
+        eapply csub_frame; [reflexivity|intros; reflexivity|exact Hsk|apply TI; exact Hu].
+    - (* ---- an Update publishes: it holds the next number ---- *)
+      simpl in G. apply Nat.eqb_eq in G.
+      assert (Hin : In t (st_pendc s)) by (apply (t_pc TI); eauto).
+      destruct (@head_of_tickets _ _ _ _ (t_tkc TI) Hin G) as (rest & Ep).
+      pose proof (t_ndc TI) as ND. rewrite Ep in ND. inversion ND as [|x l Hnr NDr]. subst x l.
+      pose proof (t_tkc TI) as TK. rewrite Ep in TK. apply tickets_tail in TK. destruct TK as [_ TK].
+      destruct (t_evc TI _ Hin) as (q & e0 & Q0 & S0 & N0). rewrite Q in Q0. inversion Q0. subst q.
+      simpl in S0. inversion S0. subst e0. rewrite G in N0. simpl in N0. rewrite Nat.sub_0_r in N0.
+      assert (Hnv' : ~ In t (st_pendv s)) by (apply Hnv; reflexivity).
+      constructor; simpl; rewrite ?app_nil_r.
+      + exact (@pend_step (@is_pv M) _ _ _ (PDone (OVal (inl nv))) Ht (t_pv TI)).
+      + exact (@pend_step (@is_pc M) _ _ _ (PDone (OVal (inl nv))) Ht (t_pc TI)).
+      + apply nodup_drop. apply TI.
+      + apply nodup_drop. apply TI.
+      + rewrite drop_tid_notin by exact Hnv'. apply TI.
+      + rewrite Ep, drop_tid_head by exact Hnr. rewrite G. exact TK.
+      + rewrite drop_tid_notin by exact Hnv'. apply TI.
+      + rewrite Ep, drop_tid_head by exact Hnr. rewrite G, (t_cntc TI), Ep. simpl. lia.
+      + apply TI.
+      + apply TI.
+      + intros a Ha. apply in_drop_tid in Ha. destruct Ha as [Ha Hne]. rewrite <- (app_nil_r (st_logv s)).
+        apply pend_ev_keep with (tkt := st_tkt s); [exact Hne|reflexivity|apply (t_evv TI); exact Ha].
+      + intros a Ha. apply in_drop_tid in Ha. destruct Ha as [Ha Hne]. rewrite <- (app_nil_r (st_logc s)).
+        apply pend_ev_keep with (tkt := st_tkt s); [exact Hne|reflexivity|apply (t_evc TI); exact Ha].
+      + apply TI.
+      + apply TI.
+      + rewrite Ep. simpl. rewrite Nat.eqb_refl. simpl. rewrite orb_false_r. apply TI.
+      + intros u Hu. apply TI. exact Hu.
+      + intros u Hu. apply in_map_iff in Hu. destruct Hu as (u0 & <- & Hu0).
+        rewrite Ep, drop_tid_head by exact Hnr. rewrite G.
+        apply csub_pub with (pcs := st_pcs s); [exact G|exact N0|exact Hsk|rewrite <- Ep; apply TI; exact Hu0].
+    - (* ---- a Delete commits and publishes under the lock: nothing is pending ---- *)
+      simpl in G. apply Nat.eqb_eq in G.
+      assert (Epc : st_pendc s = []).
+      { pose proof (t_cntc TI) as X. rewrite <- G in X. destruct (st_pendc s); [reflexivity|simpl in X; lia]. }
+      assert (Hnv' : ~ In t (st_pendv s)) by (apply Hnv; reflexivity).
+      constructor; simpl; rewrite ?app_nil_r.
+      + exact (@pend_step (@is_pv M) _ _ _ (PDone r) Ht (t_pv TI)).
+      + exact (@pend_step (@is_pc M) _ _ _ (PDone r) Ht (t_pc TI)).
+      + apply nodup_drop. apply TI.
+      + apply nodup_drop. apply TI.
+      + rewrite drop_tid_notin by exact Hnv'. apply TI.
+      + rewrite Epc. reflexivity.
+      + rewrite drop_tid_notin by exact Hnv'. apply TI.
+      + rewrite Epc. simpl. lia.
+      + apply TI.
+      + rewrite app_length, (t_lenc TI). simpl. lia.
+      + intros a Ha. apply in_drop_tid in Ha. destruct Ha as [Ha Hne]. rewrite <- (app_nil_r (st_logv s)).
+        apply pend_ev_keep with (tkt := st_tkt s); [exact Hne|reflexivity|apply (t_evv TI); exact Ha].
+      + rewrite Epc. intros a [].
+      + rewrite Ev. apply TI.
+      + eapply chain_snoc; [apply TI|exact D].
+      + rewrite Epc. simpl. rewrite orb_false_r. apply TI.
+      + intros u Hu. rewrite Ev. apply TI. exact Hu.
+      + intros u Hu. apply in_map_iff in Hu. destruct Hu as (u0 & <- & Hu0).
+        assert (SK : existsb (Nat.eqb t) (cs_skip u0) = false).
+        { apply not_true_is_false. intros C. apply existsb_eqb_in in C. exact (Hnsk eq_refl eq_refl _ Hu0 C). }
+        rewrite SK, Epc. simpl.
+        pose proof (t_csubs TI _ Hu0) as CI. rewrite Epc, G in CI.
+        apply csub_del with (pcs := st_pcs s) (items := c_items (w_c (st_w s))); [apply TI|exact D|exact Hsk|exact CI].
+    - (* ---- Value.Pull: snapshot + Listen ---- *)
+      assert (Hnv' : ~ In t (st_pendv s)) by (apply Hnv; reflexivity).
+      assert (Hnc' : ~ In t (st_pendc s)) by (apply Hnc; reflexivity).
+      constructor; simpl; rewrite ?app_nil_r; rewrite ?(drop_tid_notin _ _ Hnv'), ?(drop_tid_notin _ _ Hnc'); try apply TI.
+      + pose proof (@pend_step (@is_pv M) _ _ _ (PDone r) Ht (t_pv TI)) as X. simpl in X.
+        rewrite (drop_tid_notin _ _ Hnv') in X. exact X.
+      + pose proof (@pend_step (@is_pc M) _ _ _ (PDone r) Ht (t_pc TI)) as X. simpl in X.
+        rewrite (drop_tid_notin _ _ Hnc') in X. exact X.
+      + intros a Ha. rewrite <- (app_nil_r (st_logv s)).
+        apply pend_ev_keep with (tkt := st_tkt s); [intros ->; contradiction|reflexivity|apply (t_evv TI); exact Ha].
+      + intros a Ha. rewrite <- (app_nil_r (st_logc s)).
+        apply pend_ev_keep with (tkt := st_tkt s); [intros ->; contradiction|reflexivity|apply (t_evc TI); exact Ha].
+      + rewrite orb_false_r. apply TI.
+      + intros u Hu. apply in_app_or in Hu. destruct Hu as [Hu|[<-|[]]]; [apply TI; exact Hu|apply vsub_new].
+      + intros u Hu. eapply csub_frame; [reflexivity|intros; reflexivity|exact Hsk|apply TI; exact Hu].
+    - (* ---- Collection.Pull / the goroutine of PullID: snapshot + Listen ---- *)
+      assert (Hpp : is_pv p = false /\ is_pc p = false) by (destruct Hp as [->| ->]; split; reflexivity).
+      destruct Hpp as [Hpv Hpc].
+      assert (Hnv' : ~ In t (st_pendv s)) by (apply Hnv; exact Hpv).
+      assert (Hnc' : ~ In t (st_pendc s)) by (apply Hnc; exact Hpc).
+      rewrite Hpv, Hpc, del_ev_subc.
+      constructor; simpl; rewrite ?app_nil_r; rewrite ?(drop_tid_notin _ _ Hnv'), ?(drop_tid_notin _ _ Hnc'); try apply TI.
+      + pose proof (@pend_step (@is_pv M) _ _ _ (PDone r) Ht (t_pv TI)) as X. simpl in X.
+        rewrite (drop_tid_notin _ _ Hnv') in X. exact X.
+      + pose proof (@pend_step (@is_pc M) _ _ _ (PDone r) Ht (t_pc TI)) as X. simpl in X.
+        rewrite (drop_tid_notin _ _ Hnc') in X. exact X.
+      + intros a Ha. rewrite <- (app_nil_r (st_logv s)).
+        apply pend_ev_keep with (tkt := st_tkt s); [intros ->; contradiction|reflexivity|apply (t_evv TI); exact Ha].
+      + intros a Ha. rewrite <- (app_nil_r (st_logc s)).
+        apply pend_ev_keep with (tkt := st_tkt s); [intros ->; contradiction|reflexivity|apply (t_evc TI); exact Ha].
+      + rewrite orb_false_r. apply TI.
+      + intros u Hu. apply in_app_or in Hu. destruct Hu as [Hu|[<-|[]]].
+        * eapply csub_frame; [reflexivity|intros; reflexivity|exact Hsk|apply TI; exact Hu].
+        * eapply csub_new; [apply (i_sorted I)|apply TI|apply TI|apply TI| |apply (t_chain TI)].
+          intros a Ha. apply Hsk. apply (t_pc TI) in Ha. destruct Ha as (p0 & Q0 & S0). exists p0. auto.
+    - (* ---- any other step ---- *)
+      assert (Hnv' : ~ In t (st_pendv s)) by (apply Hnv; exact Hpv).
+      assert (Hnc' : ~ In t (st_pendc s)) by (apply Hnc; exact Hpc).
+      rewrite (saved_v_none _ Hpv'), (saved_c_none _ Hpc'), Hpv, Hpc, del_ev_none.
+      constructor; simpl; rewrite ?app_nil_r; rewrite ?(drop_tid_notin _ _ Hnv'), ?(drop_tid_notin _ _ Hnc'); try apply TI.
+      + pose proof (@pend_step (@is_pv M) _ _ _ p' Ht (t_pv TI)) as X. rewrite Hpv' in X.
+        rewrite (drop_tid_notin _ _ Hnv') in X. exact X.
+      + pose proof (@pend_step (@is_pc M) _ _ _ p' Ht (t_pc TI)) as X. rewrite Hpc' in X.
+        rewrite (drop_tid_notin _ _ Hnc') in X. exact X.
+      + intros a Ha. rewrite <- (app_nil_r (st_logv s)).
+        apply pend_ev_keep with (tkt := st_tkt s); [intros ->; contradiction|reflexivity|apply (t_evv TI); exact Ha].
+      + intros a Ha. rewrite <- (app_nil_r (st_logc s)).
+        apply pend_ev_keep with (tkt := st_tkt s); [intros ->; contradiction|reflexivity|apply (t_evc TI); exact Ha].
+      + rewrite Ev. apply TI.
+      + rewrite Ec. apply TI.
+      + rewrite orb_false_r. apply TI.
+      + intros u Hu. rewrite Ev. apply TI. exact Hu.
+      + intros u Hu. eapply csub_frame; [exact Ec|intros; reflexivity|exact Hsk|apply TI; exact Hu].
   Qed.
 
   Lemma run_snoc' pre t : run (pre ++ [t]) s0 = step t (run pre s0).
@@ -631,49 +1028,136 @@ Section Proofs.
   Lemma inv_at sched : Inv sched (run sched s0).
   Proof. apply inv_run; assumption. Qed.
 
-  Theorem sinv_run sched : SInv (run sched s0).
+  Theorem tinv_run sched : TInv (run sched s0).
   Proof.
     induction sched as [|t pre IH] using rev_ind.
-    - exact sinv_init.
-    - rewrite run_snoc'. eapply sinv_step; [apply inv_at|exact IH].
+    - exact tinv_init.
+    - rewrite run_snoc'. eapply tinv_step; [apply inv_at|exact IH].
   Qed.
 
-  Lemma done_no_pending s : SInv s -> all_done s = true -> st_pendv s = [] /\ st_pendc s = [].
+  Lemma done_no_pending s : TInv s -> all_done s = true -> st_pendv s = [] /\ st_pendc s = [].
   Proof.
     intros SI D. unfold all_done in D. rewrite forallb_forall in D. split.
     - destruct (st_pendv s) as [|a r] eqn:E; [reflexivity|]. exfalso.
       assert (In a (st_pendv s)) by (rewrite E; left; reflexivity).
-      apply (si_pv SI) in H. destruct H as (p & Q & S). apply nth_error_In in Q. apply D in Q.
+      apply (t_pv SI) in H. destruct H as (p & Q & S). apply nth_error_In in Q. apply D in Q.
       destruct p; discriminate.
     - destruct (st_pendc s) as [|a r] eqn:E; [reflexivity|]. exfalso.
       assert (In a (st_pendc s)) by (rewrite E; left; reflexivity).
-      apply (si_pc SI) in H. destruct H as (p & Q & S). apply nth_error_In in Q. apply D in Q.
+      apply (t_pc SI) in H. destruct H as (p & Q & S). apply nth_error_In in Q. apply D in Q.
       destruct p; discriminate.
   Qed.
 
-  (* ---------- C03: convergence when no commit overlaps an unpublished one ---------- *)
+  Lemma done_all_left s : TInv s -> all_done s = true ->
+    st_leftv s = List.length (st_logv s) /\ st_leftc s = List.length (st_logc s).
+  Proof.
+    intros TI D. destruct (done_no_pending TI D) as [Ev Ec].
+    pose proof (t_cntv TI) as A. pose proof (t_cntc TI) as B. rewrite Ev in A. rewrite Ec in B. simpl in *.
+    rewrite (t_lenv TI), (t_lenc TI). lia.
+  Qed.
+
+  (* ---------- C03: publications leave in commit order, for every program and schedule ---------- *)
+  (* Commit n of a resource is entry n-1 of its log.  At every moment, what a subscriber has been
+     delivered is EXACTLY the commits numbered from+1 .. left, in that order, where left is the last
+     commit that has left the turnstile and from is where the subscription starts: the last commit
+     that had left when it was registered (vs_left / cs_left), or, for a seeded Collection
+     subscription, the commit counter its snapshot was taken at (cs_cnt >= cs_left: the commits in
+     between are the skip set, which the snapshot already shows).  So: increasing commit order, no
+     gap, no repetition, and every commit that has left has been delivered to every subscriber
+     registered before its publication that does not skip it. *)
+  Theorem publications_in_commit_order sched :
+    let s := run sched s0 in
+    (st_leftv s <= st_cntv s)%nat /\ List.length (st_logv s) = st_cntv s /\
+    (st_leftc s <= st_cntc s)%nat /\ List.length (st_logc s) = st_cntc s /\
+    (forall u, In u (st_vsubs s) ->
+       (vs_left u <= st_leftv s)%nat /\
+       map Some (vs_evs u) = map (fun n => nth_error (st_logv s) (n - 1)) (seq (S (vs_left u)) (st_leftv s - vs_left u))) /\
+    (forall u, In u (st_csubs s) ->
+       (cs_left u <= cs_cnt u <= st_cntc s)%nat /\ (cs_left u <= st_leftc s)%nat /\
+       map Some (cs_evs u) = map (fun n => nth_error (st_logc s) (n - 1)) (seq (S (from_c u)) (st_leftc s - from_c u)) /\
+       (* the skip set is the set of pending commits numbered up to the snapshot's *)
+       (ro_updates_only (cs_ro u) = false ->
+        forall a, In a (st_pendc s) -> (In a (cs_skip u) <-> (st_tkt s a <= cs_cnt u)%nat))).
+  Proof.
+    simpl. pose proof (tinv_run sched) as TI.
+    pose proof (t_cntv TI) as A. pose proof (t_cntc TI) as B.
+    split; [lia|]. split; [apply TI|]. split; [lia|]. split; [apply TI|]. split.
+    - intros u Hu. destruct (t_vsubs TI _ Hu) as [L E _]. split; [exact L|]. rewrite E.
+      apply seg_is_map_seq. rewrite (t_lenv TI). lia.
+    - intros u Hu. destruct (t_csubs TI _ Hu) as [L1 L2 L3 E K _ _ _ _ _].
+      split; [lia|]. split; [exact L2|]. split; [|exact K]. rewrite E.
+      apply seg_is_map_seq. rewrite (t_lenc TI). lia.
+  Qed.
+
+  Theorem never_reordered sched : st_reordered (run sched s0) = false.
+  Proof. apply (t_noreorder (tinv_run sched)). Qed.
+
+  (* at every moment a seeded subscriber's view is List as of the last commit delivered to it *)
+  Theorem view_tracks_delivered sched u :
+    let s := run sched s0 in
+    In u (st_csubs s) -> plain_sub u ->
+    exists L, view_inv (cs_ro u) (cview u) L /\
+              chain L (skipn (List.length (cs_evs u)) (skipn (cs_cnt u) (st_logc s))) (c_items (w_c (st_w s))).
+  Proof.
+    simpl. intros Hu Hp. pose proof (tinv_run sched) as TI.
+    destruct (t_csubs TI _ Hu) as [L1 L2 L3 E _ _ _ Hs C _]. specialize (C Hp).
+    unfold plain_sub in Hp. unfold from_c in E. rewrite Hp in E. unfold seg in E.
+    rewrite <- (firstn_skipn (st_leftc (run sched s0) - cs_cnt u) (skipn (cs_cnt u) (st_logc (run sched s0)))) in C.
+    rewrite <- E in C. apply chain_split in C. destruct C as (L & CA & CB). exists L. split.
+    - destruct u as [tid ro at_ evs sk lf cn]. simpl in *. rewrite cview_all.
+      eapply chain_keeps_view; [exact CA|]. apply cview_fresh; assumption.
+    - rewrite E at 1. rewrite firstn_length, skipn_length.
+      assert (X : forall k (l : list cevent), skipn (Nat.min k (List.length l)) l = skipn k l).
+      { intros k l. destruct (le_lt_dec k (List.length l)); [rewrite Nat.min_l by lia; reflexivity|].
+        rewrite Nat.min_r by lia. rewrite !skipn_all2 by lia. reflexivity. }
+      rewrite <- skipn_length, X. exact CB.
+  Qed.
+
+  (* ---------- C03: convergence, for every program and schedule ---------- *)
   Theorem converges_collection sched u :
     let s := run sched s0 in
-    st_overlap s = false -> all_done s = true -> In u (st_csubs s) -> plain_sub u ->
+    all_done s = true -> In u (st_csubs s) -> plain_sub u ->
     forall id, vlookup id (cview u) = vlookup id (c_list r_filter (w_c (st_w s)) (ro_mask (cs_ro u)) (ro_include (cs_ro u))).
   Proof.
-    simpl. intros Ho D Hu Hp id. pose proof (sinv_run sched) as SI.
-    destruct (done_no_pending SI D) as [_ Ec]. pose proof (si_c SI Ho) as V. rewrite Ec in V.
-    destruct (V _ Hu Hp) as [_ Hv]. rewrite Hv.
-    symmetry.
+    simpl. intros D Hu Hp id. pose proof (tinv_run sched) as TI.
+    destruct (done_all_left TI D) as [_ El].
+    destruct (t_csubs TI _ Hu) as [_ _ _ E _ _ _ Hs C _]. specialize (C Hp).
+    unfold plain_sub in Hp. unfold from_c in E. rewrite Hp, El, seg_all in E. rewrite <- E in C.
+    assert (V : view_inv (cs_ro u) (cview u) (c_items (w_c (st_w (run sched s0))))).
+    { destruct u as [tid ro at_ evs sk lf cn]. simpl in *. rewrite cview_all.
+      eapply chain_keeps_view; [exact C|]. apply cview_fresh; assumption. }
+    destruct V as [_ Hv]. rewrite Hv. symmetry.
     apply (@list_shows _ _ r_filter str_ltb ltb_irrefl ltb_trans). apply (i_sorted (inv_at sched)).
+  Qed.
+
+  (* what a seeded subscription has been delivered when the calls have returned leads from its
+     snapshot to the final contents, each event describing one transition (the hypothesis of the
+     theorem about subscribers without backpressure, LossyProofs.lossy_received_plus_pending) *)
+  Theorem deliveries_chain_done sched u :
+    let s := run sched s0 in
+    all_done s = true -> In u (st_csubs s) -> plain_sub u ->
+    chain (c_items (cs_at u)) (cs_evs u) (c_items (w_c (st_w s))).
+  Proof.
+    simpl. intros D Hu Hp. pose proof (tinv_run sched) as TI.
+    destruct (done_all_left TI D) as [_ El].
+    destruct (t_csubs TI _ Hu) as [_ _ _ E _ _ _ Hs C _]. specialize (C Hp).
+    unfold plain_sub in Hp. unfold from_c in E. rewrite Hp, El, seg_all in E. rewrite <- E in C. exact C.
   Qed.
 
   Theorem converges_collection_updates_only sched u :
     let s := run sched s0 in
-    st_overlap s = false -> all_done s = true -> In u (st_csubs s) -> uo_sub u ->
+    all_done s = true -> In u (st_csubs s) -> uo_sub u ->
     forall id, touched u id ->
                vlookup id (cview u) = vlookup id (c_list r_filter (w_c (st_w s)) (ro_mask (cs_ro u)) None).
   Proof.
-    simpl. intros Ho D Hu Hp id Hid. pose proof (sinv_run sched) as SI.
-    destruct (done_no_pending SI D) as [_ Ec]. pose proof (si_cu SI Ho) as V. rewrite Ec in V.
-    destruct (V _ Hu Hp) as [_ Hv]. rewrite (Hv _ Hid).
-    destruct Hp as [RI _]. rewrite <- RI. symmetry.
+    simpl. intros D Hu Hp id Hid. pose proof (tinv_run sched) as TI.
+    destruct (done_all_left TI D) as [_ El].
+    destruct (t_csubs TI _ Hu) as [_ _ _ E _ _ _ _ _ C]. destruct Hp as [RI UO]. destruct (C UO) as (L & CL).
+    unfold from_c in E. rewrite UO, El, seg_all in E. rewrite <- E in CL.
+    assert (V : uview_inv u (c_items (w_c (st_w (run sched s0))))).
+    { destruct u as [tid ro at_ evs sk lf cn]. simpl in *.
+      change evs with ([] ++ evs). eapply uview_chain; [exact RI|exact CL|]. apply uview_fresh. exact UO. }
+    destruct V as [_ Hv]. rewrite (Hv _ Hid). rewrite <- RI. symmetry.
     apply (@list_shows _ _ r_filter str_ltb ltb_irrefl ltb_trans). apply (i_sorted (inv_at sched)).
   Qed.
 
@@ -698,29 +1182,135 @@ Section Proofs.
   (* a PullID subscription that has not ended holds the item's current value (nothing if absent) *)
   Theorem converges_pull_id sched u id vs :
     let s := run sched s0 in
-    st_overlap s = false -> all_done s = true -> In u (st_csubs s) -> plain_sub u ->
+    all_done s = true -> In u (st_csubs s) -> plain_sub u ->
     pull_id_from id (cstream u) = (vs, false) ->
     last_value vs = vlookup id (c_list r_filter (w_c (st_w s)) (ro_mask (cs_ro u)) (ro_include (cs_ro u))).
   Proof.
-    simpl. intros Ho D Hu Hp H.
-    rewrite <- (@converges_collection sched u Ho D Hu Hp id).
+    simpl. intros D Hu Hp H.
+    rewrite <- (@converges_collection sched u D Hu Hp id).
     unfold cview, fold_view. rewrite (@pull_id_fold id _ [] _ H). unfold last_value.
     destruct (rev vs); reflexivity.
   Qed.
 
   Theorem converges_value sched u :
     let s := run sched s0 in
-    st_overlap s = false -> all_done s = true -> In u (st_vsubs s) ->
+    all_done s = true -> In u (st_vsubs s) ->
     (ro_updates_only (vs_ro u) = false \/ vs_evs u <> []) ->
     last_value (vstream u) = option_map (filt (vs_ro u)) (v_val (w_v (st_w s))).
   Proof.
-    simpl. intros Ho D Hu Hne. pose proof (sinv_run sched) as SI.
-    destruct (done_no_pending SI D) as [Ev _]. pose proof (si_v SI Ho) as V. rewrite Ev in V.
-    rewrite last_value_vlast. destruct (V _ Hu) as [[A B]|A]; [|exact A].
-    destruct Hne as [C|C]; [congruence|contradiction].
+    simpl. intros D Hu Hne. pose proof (tinv_run sched) as TI.
+    destruct (done_all_left TI D) as [El _].
+    destruct (t_vsubs TI _ Hu) as [L E A]. rewrite El, seg_all in E.
+    rewrite last_value_vlast. unfold vlast.
+    destruct (rev (vs_evs u)) as [|e r] eqn:R.
+    - assert (E0 : vs_evs u = []) by (rewrite <- (rev_involutive (vs_evs u)), R; reflexivity).
+      destruct Hne as [UO|C]; [|contradiction]. rewrite UO.
+      rewrite E0 in E. symmetry in E.
+      assert (Hl : vs_left u = List.length (st_logv (run sched s0))).
+      { pose proof (skipn_length (vs_left u) (st_logv (run sched s0))) as X. rewrite E in X. simpl in X. lia. }
+      rewrite (A Hl). reflexivity.
+    - rewrite (t_val TI). unfold last_ev.
+      rewrite <- (firstn_skipn (vs_left u) (st_logv (run sched s0))), rev_app_distr, <- E, R. reflexivity.
   Qed.
 
-  (* ---------- when commits cannot overlap ---------- *)
+  (* ---------- the ticket discipline cannot deadlock ---------- *)
+  Lemma trans_progress (c : call) p w : pc_wf c p w -> is_done p = false -> trans c p w <> None.
+  Proof.
+    intros Hwf Hd. unfold Lts.trans.
+    destruct c as [msg o|id0 msg o|id0 o|ro|ro|id1 ro]; destruct p as [|old cr|nv e|nv e|seen n|r|];
+      simpl in Hwf; try contradiction; try discriminate.
+    - destruct (w_validate (wo_writer o)); discriminate.
+    - destruct (change_fn m_eqb m_empty w_merge o msg old); [|discriminate].
+      destruct (om_eqb m_eqb old (v_val (w_v w))); [|discriminate].
+      destruct (update_time clock_at o (v_reads (w_v w))). discriminate.
+    - destruct (w_validate (wo_writer o)); [discriminate|].
+      destruct (c_get_fn m_empty false o (apply_id idfun id0) false (c_items (w_c w))) as [[b|code] cr]; discriminate.
+    - destruct (change_fn m_eqb m_empty w_merge o msg old); [|discriminate].
+      destruct (c_get_fn m_empty false o (apply_id idfun id0) cr (c_items (w_c w))) as [[b|code] cr']; [|discriminate].
+      destruct (om_eqb m_eqb old (Some b)); [|discriminate].
+      destruct (update_time clock_at o (c_reads (w_c w))). discriminate.
+    - destruct (Nat.leb 5 n); [discriminate|].
+      destruct (del_check m_eqb o seen) eqn:DC; [discriminate|].
+      destruct (same_ptr seen (lookup_st (apply_id idfun id0) w)); [|discriminate].
+      destruct seen as [[it st]|]; [|simpl in DC; discriminate].
+      destruct (update_time clock_at o (c_reads (w_c w))). discriminate.
+  Qed.
+
+  Lemma not_all_done (pcs : list pc) : forallb (@is_done M) pcs = false ->
+    exists t p, nth_error pcs t = Some p /\ is_done p = false.
+  Proof.
+    induction pcs as [|q r IH]; simpl; [discriminate|]. destruct (is_done q) eqn:D; simpl.
+    - intros H. destruct (IH H) as (t & p & A & B). exists (S t), p. auto.
+    - intros _. exists O, q. auto.
+  Qed.
+
+  Lemma enabled_step t s :
+    (enabled t s = true -> st_stutter (step t s) = st_stutter s) /\
+    (enabled t s = false -> step t s = stutter s).
+  Proof.
+    unfold Lts.enabled, Lts.step.
+    destruct (nth_error prog t) as [c|]; [|split; [discriminate|reflexivity]].
+    destruct (nth_error (st_pcs s) t) as [p|]; [|split; [discriminate|reflexivity]].
+    destruct (trans c p (st_w s)) as [[[p' w'] eff]|]; [|split; [discriminate|reflexivity]].
+    destruct (gate_open false t s p eff); split; try discriminate; reflexivity.
+  Qed.
+
+  (* In every reachable state: the publication at the head of a turnstile's queue is enabled (so a
+     Delete that is waiting for it -- in the code: under the write lock -- cannot keep it back, and
+     the turnstile never closes a cycle), and as long as some call has not returned some step is
+     enabled.  (Consumers keep receiving: a publication is one step.) *)
+  Theorem ticket_progress sched :
+    let s := run sched s0 in
+    (forall t rest, st_pendv s = t :: rest -> enabled t s = true) /\
+    (forall t rest, st_pendc s = t :: rest -> enabled t s = true) /\
+    (all_done s = false -> exists t, enabled t s = true).
+  Proof.
+    simpl. pose proof (tinv_run sched) as TI. pose proof (inv_at sched) as I.
+    set (s := run sched s0) in *.
+    assert (Hprog : forall t p, nth_error (st_pcs s) t = Some p -> exists c, nth_error prog t = Some c).
+    { intros t p Q. assert (La : (t < List.length prog)%nat).
+      { rewrite <- (i_len I). apply nth_error_Some. rewrite Q. discriminate. }
+      destruct (nth_error prog t) as [c|] eqn:P; [eauto|]. apply nth_error_None in P. lia. }
+    assert (HV : forall t rest, st_pendv s = t :: rest -> enabled t s = true).
+    { intros t rest E.
+      assert (Hin : In t (st_pendv s)) by (rewrite E; left; reflexivity).
+      destruct (t_evv TI _ Hin) as (q & e & Q & S & _).
+      destruct (Hprog _ _ Q) as (c & P). destruct (i_local I _ P Q) as [Hwf _].
+      pose proof (t_tkv TI) as TK. rewrite E in TK. apply tickets_tail in TK. destruct TK as [TK _].
+      unfold Lts.enabled. rewrite P, Q.
+      destruct q; try discriminate. destruct c; simpl in Hwf; try contradiction.
+      simpl. rewrite TK. apply Nat.eqb_refl. }
+    assert (HC : forall t rest, st_pendc s = t :: rest -> enabled t s = true).
+    { intros t rest E.
+      assert (Hin : In t (st_pendc s)) by (rewrite E; left; reflexivity).
+      destruct (t_evc TI _ Hin) as (q & e & Q & S & _).
+      destruct (Hprog _ _ Q) as (c & P). destruct (i_local I _ P Q) as [Hwf _].
+      pose proof (t_tkc TI) as TK. rewrite E in TK. apply tickets_tail in TK. destruct TK as [TK _].
+      unfold Lts.enabled. rewrite P, Q.
+      destruct q; try discriminate. destruct c; simpl in Hwf; try contradiction.
+      simpl. rewrite TK. apply Nat.eqb_refl. }
+    split; [exact HV|]. split; [exact HC|].
+    intros D.
+    destruct (st_pendv s) as [|a r] eqn:Ev; [|exists a; eapply HV; reflexivity].
+    destruct (st_pendc s) as [|a r] eqn:Ec; [|exists a; eapply HC; reflexivity].
+    destruct (not_all_done _ D) as (t & p & Q & Hd). exists t.
+    destruct (Hprog _ _ Q) as (c & P). destruct (i_local I _ P Q) as [Hwf _].
+    pose proof (trans_progress _ _ _ Hwf Hd) as TP.
+    unfold Lts.enabled. rewrite P, Q.
+    destruct (trans c p (st_w s)) as [[[p' w'] eff]|]; [|contradiction].
+    unfold Lts.gate_open. simpl.
+    assert (Hv : is_pv p = false).
+    { destruct (is_pv p) eqn:X; [|reflexivity]. exfalso.
+      assert (In t (st_pendv s)) by (apply (t_pv TI); eauto). rewrite Ev in H. destruct H. }
+    assert (Hc : is_pc p = false).
+    { destruct (is_pc p) eqn:X; [|reflexivity]. exfalso.
+      assert (In t (st_pendc s)) by (apply (t_pc TI); eauto). rewrite Ec in H. destruct H. }
+    pose proof (t_cntc TI) as B. rewrite Ec in B. simpl in B.
+    destruct p; try discriminate; try reflexivity.
+    destruct eff; try reflexivity. apply Nat.eqb_eq. lia.
+  Qed.
+
+  (* ---------- when commits cannot overlap: the turnstile never makes anyone wait ---------- *)
   Definition is_writer (c : call) : bool :=
     match c with CSet _ _ | CUpdate _ _ _ | CDelete _ _ => true | _ => false end.
   Definition idle (p : pc) : bool := match p with PStart | PDone _ => true | _ => false end.
@@ -734,13 +1324,13 @@ Section Proofs.
                      nth_error (st_pcs (run (firstn k sched) s0)) t' = Some p' -> idle p' = true.
 
   Lemma pending_is_busy_writer s pre a :
-    Inv pre s -> SInv s -> In a (st_pendv s) \/ In a (st_pendc s) ->
+    Inv pre s -> TInv s -> In a (st_pendv s) \/ In a (st_pendc s) ->
     exists c p, nth_error prog a = Some c /\ nth_error (st_pcs s) a = Some p /\ is_writer c = true /\ idle p = false /\
                 (is_pv p = true \/ is_pc p = true).
   Proof.
     intros I SI H.
     assert (G : exists p, nth_error (st_pcs s) a = Some p /\ (is_pv p = true \/ is_pc p = true)).
-    { destruct H as [H|H]; [apply (si_pv SI) in H|apply (si_pc SI) in H]; destruct H as (p & Q & S); eauto. }
+    { destruct H as [H|H]; [apply (t_pv SI) in H|apply (t_pc SI) in H]; destruct H as (p & Q & S); eauto. }
     destruct G as (p & Q & S).
     assert (La : (a < List.length prog)%nat).
     { rewrite <- (i_len I). apply nth_error_Some. rewrite Q. discriminate. }
@@ -750,7 +1340,7 @@ Section Proofs.
   Qed.
 
   Lemma overlap_step s pre t :
-    Inv pre s -> SInv s -> st_overlap s = false ->
+    Inv pre s -> TInv s -> st_overlap s = false ->
     (forall c, nth_error prog t = Some c -> is_writer c = true ->
                forall a, In a (st_pendv s) \/ In a (st_pendc s) -> a = t) ->
     st_overlap (step t s) = false.
@@ -759,6 +1349,7 @@ Section Proofs.
     destruct (nth_error prog t) as [c|] eqn:P; [|exact Ho].
     destruct (nth_error (st_pcs s) t) as [p|] eqn:Q; [|exact Ho].
     destruct (trans c p (st_w s)) as [[[p' w'] eff]|] eqn:T; [|exact Ho].
+    destruct (gate_open false t s p eff); [|exact Ho].
     simpl. rewrite Ho. simpl.
     destruct (is_writer c) eqn:W.
     2:{ (* a subscriber's step commits nothing *)
@@ -772,12 +1363,13 @@ Section Proofs.
       - destruct (st_pendc s) as [|a r] eqn:Ec; [left; auto|]. right.
         assert (a = t) by (apply Hp; right; left; reflexivity). subst a.
         assert (In t (st_pendc s)) by (rewrite Ec; left; reflexivity).
-        apply (si_pc SI) in H. destruct H as (p0 & Q0 & S0). rewrite Q in Q0. inversion Q0. subst. auto.
+        apply (t_pc SI) in H. destruct H as (p0 & Q0 & S0). rewrite Q in Q0. inversion Q0. subst. auto.
       - right. assert (a = t) by (apply Hp; left; left; reflexivity). subst a.
         assert (In t (st_pendv s)) by (rewrite Ev; left; reflexivity).
-        apply (si_pv SI) in H. destruct H as (p0 & Q0 & S0). rewrite Q in Q0. inversion Q0. subst. auto. }
+        apply (t_pv SI) in H. destruct H as (p0 & Q0 & S0). rewrite Q in Q0. inversion Q0. subst. auto. }
     destruct G as [[-> ->]|[S|S]].
-    - destruct p'; simpl; try reflexivity; apply andb_false_r.
+    - simpl. destruct (is_some (saved_v p')); [reflexivity|]. destruct (is_some (saved_c p')); [reflexivity|].
+      apply andb_false_r.
     - destruct p; try discriminate. destruct TE2 as [-> ->]. reflexivity.
     - destruct p; try discriminate. destruct TE2 as [-> ->]. reflexivity.
   Qed.
@@ -788,15 +1380,60 @@ Section Proofs.
     assert (G : forall pre suf, sched = pre ++ suf -> st_overlap (run pre s0) = false).
     { induction pre as [|t pre IH] using rev_ind; intros suf E; [reflexivity|].
       rewrite run_snoc'. rewrite <- app_assoc in E. simpl in E.
-      eapply overlap_step; [apply inv_at|apply sinv_run|eapply IH; eauto|].
+      eapply overlap_step; [apply inv_at|apply tinv_run|eapply IH; eauto|].
       intros ct Pt Wt a Ha. destruct (Nat.eq_dec a t) as [|Hne]; [assumption|exfalso].
-      destruct (@pending_is_busy_writer _ _ _ (inv_at pre) (sinv_run pre) Ha) as (c & p & P & Q & W & B & _).
+      destruct (@pending_is_busy_writer _ _ _ (inv_at pre) (tinv_run pre) Ha) as (c & p & P & Q & W & B & _).
       assert (N : nth_error sched (List.length pre) = Some t).
       { rewrite E, nth_error_app2 by lia. rewrite Nat.sub_diag. reflexivity. }
       assert (F : firstn (List.length pre) sched = pre).
       { rewrite E, firstn_app, firstn_all, Nat.sub_diag. simpl. apply app_nil_r. }
       pose proof (H _ _ _ N Pt Wt a c p Hne P W) as K. rewrite F in K. rewrite (K Q) in B. discriminate. }
     apply (G sched []). rewrite app_nil_r. reflexivity.
+  Qed.
+
+  (* with one writer at a time no step of a call that has not returned is ever disabled: the
+     turnstile is free whenever the writer reaches it *)
+  Theorem one_writer_never_waits sched k t p :
+    one_writer_at_a_time sched -> nth_error sched k = Some t ->
+    nth_error (st_pcs (run (firstn k sched) s0)) t = Some p -> is_done p = false ->
+    enabled t (run (firstn k sched) s0) = true.
+  Proof.
+    intros H N Q Hd. set (pre := firstn k sched) in *.
+    pose proof (tinv_run pre) as TI. pose proof (inv_at pre) as I.
+    assert (La : (t < List.length prog)%nat).
+    { rewrite <- (i_len I). apply nth_error_Some. rewrite Q. discriminate. }
+    destruct (nth_error prog t) as [c|] eqn:P; [|apply nth_error_None in P; lia].
+    destruct (i_local I _ P Q) as [Hwf _].
+    pose proof (trans_progress _ _ _ Hwf Hd) as TP.
+    unfold Lts.enabled. rewrite P, Q.
+    destruct (trans c p (st_w (run pre s0))) as [[[p' w'] eff]|] eqn:T; [|contradiction].
+    assert (Honly : is_writer c = true -> forall a, In a (st_pendv (run pre s0)) \/ In a (st_pendc (run pre s0)) -> a = t).
+    { intros W a Ha. destruct (Nat.eq_dec a t) as [|Hne]; [assumption|exfalso].
+      destruct (@pending_is_busy_writer _ _ _ I TI Ha) as (c' & p0 & P' & Q' & W' & B & _).
+      pose proof (H _ _ _ N P W a c' p0 Hne P' W' Q') as K. rewrite K in B. discriminate. }
+    unfold Lts.gate_open. simpl.
+    destruct p; try reflexivity.
+    - (* value.publish: t is the only pending thread *)
+      assert (W : is_writer c = true) by (destruct c; simpl in Hwf; try contradiction; reflexivity).
+      assert (Hin : In t (st_pendv (run pre s0))) by (apply (t_pv TI); eauto).
+      pose proof (t_tkv TI) as TK. pose proof (t_ndv TI) as ND.
+      destruct (st_pendv (run pre s0)) as [|a r] eqn:E; [destruct Hin|].
+      assert (a = t) by (apply (Honly W); left; left; reflexivity). subst a.
+      apply tickets_tail in TK. destruct TK as [TK _]. rewrite TK. apply Nat.eqb_refl.
+    - assert (W : is_writer c = true) by (destruct c; simpl in Hwf; try contradiction; reflexivity).
+      assert (Hin : In t (st_pendc (run pre s0))) by (apply (t_pc TI); eauto).
+      pose proof (t_tkc TI) as TK.
+      destruct (st_pendc (run pre s0)) as [|a r] eqn:E; [destruct Hin|].
+      assert (a = t) by (apply (Honly W); right; left; reflexivity). subst a.
+      apply tickets_tail in TK. destruct TK as [TK _]. rewrite TK. apply Nat.eqb_refl.
+    - (* a Delete: nothing is pending *)
+      assert (W : is_writer c = true) by (destruct c; simpl in Hwf; try contradiction; reflexivity).
+      destruct eff; try reflexivity. apply Nat.eqb_eq.
+      pose proof (t_cntc TI) as B.
+      destruct (st_pendc (run pre s0)) as [|a r] eqn:E; [simpl in B; lia|exfalso].
+      assert (a = t) by (apply (Honly W); right; left; reflexivity). subst a.
+      assert (Hin : In t (st_pendc (run pre s0))) by (rewrite E; left; reflexivity).
+      apply (t_pc TI) in Hin. destruct Hin as (p0 & Q0 & S0). rewrite Q in Q0. inversion Q0. subst. discriminate.
   Qed.
 
   (* any number of concurrent Deletes (they publish under the lock): nothing is ever pending *)
@@ -806,9 +1443,9 @@ Section Proofs.
   Theorem deletes_no_overlap sched : only_deletes_write -> st_overlap (run sched s0) = false.
   Proof.
     intros H. induction sched as [|t pre IH] using rev_ind; [reflexivity|].
-    rewrite run_snoc'. eapply overlap_step; [apply inv_at|apply sinv_run|exact IH|].
+    rewrite run_snoc'. eapply overlap_step; [apply inv_at|apply tinv_run|exact IH|].
     intros ct Pt Wt a Ha. exfalso.
-    destruct (@pending_is_busy_writer _ _ _ (inv_at pre) (sinv_run pre) Ha) as (c & p & P & Q & _ & _ & S).
+    destruct (@pending_is_busy_writer _ _ _ (inv_at pre) (tinv_run pre) Ha) as (c & p & P & Q & _ & _ & S).
     destruct (i_local (inv_at pre) _ P Q) as [Hwf _]. specialize (H _ _ P).
     destruct p; destruct S as [S|S]; try discriminate; destruct c; simpl in Hwf; contradiction.
   Qed.
